@@ -1,41 +1,104 @@
 """C04 — obstacle occupancy is the shape placed at the state, for every time step.
-model: lean/CRModel/Occupancy.lean; theorems: lean/CRProps/C04.lean."""
+model: lean/CRModel/Occupancy.lean; theorems: lean/CRProps/C04.lean; dimension table: harness/c04_dims.py."""
+import copy
 import glob
 import json
 import math
 import os
+import pickle
+import random
 import warnings
 from fractions import Fraction
 
+import c04_dims
 import geom
-from common import CORPUS_DIR, call, frac, rat
+from common import CORPUS_DIR, InfraError, call, frac, rat
 
 RULE = ("obstacles of every role (static; dynamic with trajectory / set-based / no prediction; phantom; environment) x shapes "
-        "(rectangle, circle, polygon, shape group; centred and off-centre) x state classes (KS, ST, Initial, PM with vx/vy in all "
-        "quadrants) queried at every integer step from 3 before the initial step to 3 after the horizon end; uncertain states "
-        "(position region rectangle/circle/polygon, orientation interval) with 40 sampled admissible poses each; scenarios of 2..6 "
-        "such obstacles queried with every role filter / type filter / position interval at several steps. distinct = canonical "
-        "JSON; every case is non-trivial (each spans both horizon ends)")
+        "(rectangle, circle, polygon, shape group; centred and off-centre) x every state class with a position (KS, KST, ST, STD, MB, "
+        "ExtendedPM, Initial, PM and Custom point-mass with vx/vy in all quadrants, Custom with extra attributes) x every optional "
+        f"constructor argument (harness/c04_dims.py lists all {c04_dims.size()} parameters / setters / operations and is checked against the real "
+        "signatures on every run) x number classes (float, int, float32, numpy scalars, 1e5 magnitudes) queried at every integer step "
+        "from 3 before the initial step to 3 after the horizon end, through the obstacle and through the prediction / trajectory; "
+        "HISTORIES of 2..6 public mutations after a first query (trajectory / shape / prediction / occupancy_set / initial_state "
+        "setters incl. the held object handed back, in-place edits of a stored occupancy list, update_initial_state incl. failing "
+        "half-way, update_prediction, translate_rotate, no-op setters, read-only queries, deepcopy / pickle / copy clones) re-judged "
+        "after every step; uncertain states (position region rectangle/circle/polygon, orientation interval) directly and through "
+        "initial / trajectory states of obstacles with 40 sampled admissible poses each; SCENARIO histories of add (single / list / "
+        "duplicate ids) / remove (single / list / absent / look-alike) / mutate / translate_rotate with every query form (role and "
+        "type filters, every role tuple as tuple / list / set / default, negative steps) after them. distinct = canonical JSON; every "
+        "case is non-trivial (each spans both horizon ends or a mutation)")
 ASSUMPTIONS = ["placement geometry (rotate about the shape's own centre, then translate) is recomputed by the oracle with float "
                "cos/sin and compared to 1e-9; it is symbolic in the Lean model",
                "well-formed trajectories (state i carries time step t0+i) as the property's horizon notion presupposes",
                "enclosure for uncertain states is sampled (40 poses x shape vertices), a test not a theorem; the proved part is "
-               "C04_extent_le_small/_max, C04_enclosure_box/_long"]
+               "C04_extent_le_small/_max, C04_enclosure_box/_long",
+               "time steps are Python ints (the annotated type): a numpy integer QUERY step must give the int answer or be rejected "
+               "with AssertionError (Occupancy / Prediction assert isinstance(int)); numpy integer time steps INSIDE states are "
+               "accepted by Trajectory and rejected by Occupancy at the first query — replayed as an excluded witness, not judged",
+               "in-place edits of a HELD trajectory or state that no setter sees (Trajectory.append_state / translate_rotate / "
+               "initial_time_step, state.position = ... without re-assignment) are property C11's subject (known findings there) and "
+               "are not generated; edits of a set-based prediction's occupancy LIST and of its stored Occupancy objects are generated "
+               "(nothing is cached there)",
+               "wheelbase_lengths (trailer-truck hook behind **kwargs: DynamicObstacle with it needs a hitch_angle no InitialState "
+               "has, TrajectoryPrediction's setter stores it under another name) is outside the quantifier; the kwargs channel is "
+               "varied with wheelbase=[...] as the XML reader passes it",
+               "a TrajectoryPrediction whose shape differs from obstacle_shape: beyond the initial step 'the obstacle's shape' is the "
+               "prediction's shape (the only one the prediction knows)",
+               "negative steps at scenario level: occupancies_at_time_step / obstacle_states_at_time_step assert a natural number "
+               "(modelled: occupanciesAtChk / statesAtChk, compared); obstacles_by_position_intervals accepts them and is judged"]
 EXTRA_MODULES = ["CRProps.T17", "CRProps.T04", "CRProps.P04"]      # translator tie: Gen.Src (regenerated from /repo every run) = hand model
+STATE_CLASSES = ["KSState", "KSTState", "STState", "STDState", "MBState", "ExtendedPMState", "InitialState", "PMState", "CustomState",
+                 "CustomPM"]
+PM_LIKE = ("PMState", "CustomPM")
 REQUIRED_BUCKETS = ["role/static", "role/dynamic-traj", "role/dynamic-set", "role/dynamic-none", "role/phantom", "role/environment",
-                    "state/PMState", "t/before", "t/initial", "t/inside", "t/after", "uncertain/orientation", "uncertain/position",
+                    "t/before", "t/initial", "t/inside", "t/after", "uncertain/orientation", "uncertain/position",
                     "scenario/role-filter", "scenario/position-interval", "shape/group", "shape/poly",
                     "history/trajectory-replaced", "history/update-initial-state",
-                    "place/rect", "place/circ", "place/poly", "place/group", "set/unsorted"]
+                    "place/rect", "place/circ", "place/poly", "place/group", "set/unsorted", "dimension-table/checked",
+                    "dim/id-zero", "dim/id-large", "dim/type-upper", "dim/optional-args", "dim/lanelet-ids", "dim/signal", "dim/meta",
+                    "dim/history-arg", "dim/kwargs", "dim/num-int", "dim/num-f32", "dim/num-np64", "dim/num-big", "dim/init-minimal",
+                    "dim/custom-extra", "dim/traj-starts-at-init", "dim/traj-starts-before-init", "dim/pred-shape-copy",
+                    "dim/pred-shape-other", "dim/lanelet-assignment", "dim/set-empty", "dim/set-nested", "dim/set-duplicate-object",
+                    "dim/set-t0-inconsistent", "dim/numpy-step", "entry/prediction.occupancy_at_time_step",
+                    "entry/trajectory.state_at_time_step",
+                    "hop/set_trajectory", "hop/reassign", "hop/set_pred_shape", "hop/set_prediction", "hop/update_prediction",
+                    "hop/set_initial", "hop/set_initial-inplace", "hop/update_initial", "hop/update_initial_fail", "hop/occ_set",
+                    "hop/phantom_prediction", "hop/translate_rotate", "hop/noop_setters", "hop/readonly", "hop/clone",
+                    "sop/add-list", "sop/add-duplicate-id", "sop/add_many-fails-halfway", "sop/remove", "sop/remove-absent",
+                    "sop/remove-lookalike", "sop/readd", "sop/mutate", "sop/translate_rotate", "sop/lanelets",
+                    "sop/query-negative-step", "sop/query-default-args", "sop/roles-list", "sop/roles-set", "sop/obstacle_by_id",
+                    "sop/second-scenario", "sop/remove-bad-arg", "sop/empty-scenario",
+                    "uncertain/via-initial", "uncertain/via-trajectory", "uncertain/random-shape"] + \
+                   ["state/" + c for c in STATE_CLASSES]
 
 TOL = 1e-9
+NTYPES = 16         # len(ObstacleType); checked in run()
+LANELET_IDS = [100, 101]
 
 
 # ------------------------------------------------------------------------------------------------ generation
 
-def gen_pose(r):
-    return {"pos": [r.randint(-320, 320) / 16.0, r.randint(-320, 320) / 16.0],
-            "ori": r.choice([0.0, math.pi / 2, -1.0, 3.0, r.uniform(-6.2, 6.2)])}
+def gen_pose(r, pm=False):
+    """A pose spec. `num` is the number class the real state is built with (the VALUES are always exactly representable in it)."""
+    num = r.choice(["float"] * 7 + ["int", "f32", "np64", "big"])
+    if num == "int":
+        p = {"pos": [float(r.randint(-20, 20)), float(r.randint(-20, 20))], "ori": float(r.choice([0, 1, -1, 3, -3, 6, -6]))}
+    elif num == "f32":
+        p = {"pos": [r.randint(-320, 320) / 16.0, r.randint(-320, 320) / 16.0], "ori": r.choice([0.0, 0.5, -1.0, 3.0, -2.25, 6.0])}
+    elif num == "big":
+        p = {"pos": [r.randint(-320, 320) * 256.0 + 0.5, r.randint(-320, 320) * 256.0 - 0.25], "ori": r.uniform(-6.2, 6.2)}
+    else:
+        p = {"pos": [r.randint(-320, 320) / 16.0, r.randint(-320, 320) / 16.0],
+             "ori": r.choice([0.0, math.pi / 2, -1.0, 3.0, r.uniform(-6.2, 6.2)])}
+    p["num"] = num
+    if pm:
+        v = r.choice([(3.0, 4.0), (-3.0, 4.0), (-1.0, -1.0), (2.0, -0.5), (0.0, 1.0), (-2.0, 0.0), (0.0, 0.0), (0.0, -3.0),
+                      (r.uniform(-5, 5), r.uniform(-5, 5))])
+        if num in ("int", "f32"):
+            v = (float(round(v[0])), float(round(v[1])))
+        p = {"pos": p["pos"], "vx": v[0], "vy": v[1], "num": num}
+    return p
 
 
 def gen_obst_shape(r):
@@ -53,155 +116,267 @@ def gen_obst_shape(r):
     return spec
 
 
-def gen_obstacle(r, oid):
-    kind = r.choice(["static", "dynamic-traj", "dynamic-traj", "dynamic-set", "dynamic-none", "phantom", "environment"])
-    o = {"id": oid, "kind": kind, "type": r.randrange(8), "shape": gen_obst_shape(r)}
+def gen_ids(r):
+    return r.choice([None, [], [100], [100, 101]])
+
+
+def gen_opt(r, kind):
+    """Optional constructor arguments of static / dynamic obstacles (all default with probability 1/2)."""
+    if r.random() < 0.5:
+        return {}
+    opt = {"center_ids": gen_ids(r), "shape_ids": gen_ids(r), "signal": r.choice([None, "at-init", "other"]),
+           "signal_series": r.choice([None, 0, 3])}
+    if kind.startswith("dynamic"):
+        opt.update({"meta": r.random() < 0.5, "meta_series": r.choice([None, 0, 2]), "ext_id": r.choice([None, 0, 7]),
+                    "history": r.choice([None, 0, 2]), "signal_history": r.choice([None, 0, 2]), "cl_hist": r.choice([None, 0, 2]),
+                    "sl_hist": r.choice([None, 0, 2]), "kw": r.random() < 0.5})
+    return opt
+
+
+def gen_traj(r, t_init, n=None, cls=None, first=None):
+    n = n or r.randint(1, 8)
+    if first is None:
+        first = max(0, t_init + r.choice([1, 1, 1, 1, 2, 3, 0, -1]))
+    cls = cls or r.choice(STATE_CLASSES)
+    return {"t0": first, "cls": cls, "states": [gen_pose(r, pm=cls in PM_LIKE) for _ in range(n)],
+            "extra": cls in ("CustomState", "CustomPM") and r.random() < 0.5}
+
+
+def gen_set(r, first, lo=1):
+    occs, t = [], first
+    for _ in range(r.randint(lo, 6)):
+        x = r.random()
+        if x < 0.4:
+            hi = t + r.randint(0, 3)
+            occs.append({"time": [t, hi], "shape": geom.gen_shape(r)})
+            if r.random() < 0.25 and hi > t:                       # nested / overlapping interval right behind
+                occs.append({"time": [t + r.randint(0, 1), hi + r.choice([-1, 0, 1])], "shape": geom.gen_shape(r), "nested": True})
+                occs[-1]["time"][1] = max(occs[-1]["time"])
+                occs[-1]["time"][0] = min(occs[-1]["time"][0], occs[-1]["time"][1])
+            t = hi + r.choice([0, 1, 2])          # intervals may touch / leave gaps
+        else:
+            occs.append({"time": [t], "shape": geom.gen_shape(r)})
+            t += r.choice([1, 1, 2])
+    for i, oc in enumerate(occs):
+        oc["lab"] = i                               # entries with the same label are the same Occupancy OBJECT
+    sp = {"t0": first, "occs": occs, "next": len(occs)}
+    if len(occs) > 1 and r.random() < 0.35:
+        r.shuffle(occs)                            # the occupancy set is a list in ANY order: no sortedness may be assumed
+        sp["unsorted"] = True
+    if occs and r.random() < 0.15:
+        occs.insert(r.randint(0, len(occs)), dict(r.choice(occs)))
+        sp["dup"] = True
+    if r.random() < 0.2:
+        sp["t0"] = max(0, first + r.choice([-2, 3, 7]))
+    return sp
+
+
+def gen_obstacle(r, oid, kind=None):
+    kind = kind or r.choice(["static", "dynamic-traj", "dynamic-traj", "dynamic-set", "dynamic-none", "phantom", "environment"])
+    o = {"id": oid, "kind": kind, "type": r.randrange(NTYPES), "shape": gen_obst_shape(r)}
     t0 = r.choice([0, 0, 1, 3, r.randint(0, 10)])
     o["t_init"] = t0
     o["init"] = gen_pose(r)
+    o["init_min"] = r.random() < 0.2
+    if kind in ("static",) or kind.startswith("dynamic"):
+        o["opt"] = gen_opt(r, kind)
     if kind == "dynamic-traj":
-        n = r.randint(1, 8)
-        first = t0 + r.choice([1, 1, 1, 2, 3])
-        cls = r.choice(["KSState", "STState", "PMState", "PMState", "CustomState"])
-        sts = []
-        for i in range(n):
-            p = gen_pose(r)
-            if cls == "PMState":
-                v = r.choice([(3.0, 4.0), (-3.0, 4.0), (-1.0, -1.0), (2.0, -0.5), (0.0, 1.0), (-2.0, 0.0), (r.uniform(-5, 5), r.uniform(-5, 5))])
-                p = {"pos": p["pos"], "vx": v[0], "vy": v[1]}
-            sts.append(p)
-        o["traj"] = {"t0": first, "cls": cls, "states": sts}
+        o["traj"] = gen_traj(r, t0)
+        x = r.random()
+        o["traj"]["pshape"] = "same" if x < 0.6 else "copy" if x < 0.8 else geom.gen_shape(r)
+        o["traj"]["cla"] = r.choice([None, None, "empty", "some"])
+        o["traj"]["sla"] = r.choice([None, None, "empty", "some"])
+        o["traj"]["kw"] = r.random() < 0.2
     elif kind in ("dynamic-set", "phantom"):
-        first = t0 + 1
-        occs, t = [], first
-        for _ in range(r.randint(0 if kind == "phantom" else 1, 6)):
-            if r.random() < 0.4:
-                hi = t + r.randint(0, 3)
-                occs.append({"time": [t, hi], "shape": geom.gen_shape(r)})
-                t = hi + r.choice([0, 1, 2])          # intervals may touch / leave gaps
-            else:
-                occs.append({"time": [t], "shape": geom.gen_shape(r)})
-                t += r.choice([1, 1, 2])
-        if len(occs) > 1 and r.random() < 0.35:
-            r.shuffle(occs)                            # the occupancy set is a list in ANY order: no sortedness may be assumed
-            o["unsorted_set"] = True
-        o["set"] = {"t0": first, "occs": occs}
+        o["set"] = gen_set(r, t0 + 1, lo=0)
         if kind == "phantom" and r.random() < 0.15:
             o["set"] = None
     return o
 
 
-def horizon_ts(o):
-    lo = o["t_init"]
-    hi = lo
+def horizon(o):
+    lo = hi = o["t_init"] if o["kind"] not in ("phantom", "environment") else 0
     if o["kind"] == "dynamic-traj":
-        hi = o["traj"]["t0"] + len(o["traj"]["states"]) - 1
+        hi = max(hi, o["traj"]["t0"] + len(o["traj"]["states"]) - 1)
+        lo = min(lo, o["traj"]["t0"])
     elif o.get("set"):
         for oc in o["set"]["occs"]:
             hi = max(hi, oc["time"][-1])
+            lo = min(lo, oc["time"][0])
+    return lo, hi
+
+
+def horizon_ts(o):
+    lo, hi = horizon(o)
     return list(range(lo - 3, hi + 4))
 
 
-def gen_case(ctx):
-    r = ctx.rng
-    x = r.random()
-    if x < 0.55:
-        o = gen_obstacle(r, 1)
-        return {"kind": "obstacle", "obst": o, "ts": horizon_ts(o)}
-    if x < 0.75:
-        return {"kind": "uncertain", **gen_uncertain(r)}
-    obs = [gen_obstacle(r, i + 1) for i in range(r.randint(2, 6))]
-    lo, hi = sorted([r.randint(-320, 320) / 16.0, r.randint(-320, 320) / 16.0])
-    lo2, hi2 = sorted([r.randint(-320, 320) / 16.0, r.randint(-320, 320) / 16.0])
-    return {"kind": "scenario", "obs": obs, "ts": sorted({0, r.randint(0, 6), r.randint(0, 14)}),
-            "role": r.choice([None, "static", "dynamic", "phantom", "environment"]), "ty": r.choice([None, r.randrange(8)]),
-            "box": [[lo, hi], [lo2, hi2]],
-            "roles": r.choice([["dynamic", "static"], ["dynamic"], ["static"], ["phantom", "environment"],
-                               ["dynamic", "static", "phantom", "environment"]])}
-
-
-def gen_uncertain(r):
-    shape = r.choice([
-        {"k": "rect", "l": r.randint(8, 96) / 16.0, "w": r.randint(4, 48) / 16.0, "c": [0.0, 0.0], "o": 0.0},
-        {"k": "circ", "r": r.randint(4, 48) / 16.0, "c": [0.0, 0.0]},
-        {"k": "poly", "v": [[-2.0, -1.0], [2.0, -1.0], [2.0, 1.0], [-2.0, 1.0]]},
-        {"k": "poly", "v": [[-1.5, -0.75], [1.5, -0.75], [2.5, 0.0], [1.5, 0.75], [-1.5, 0.75], [-2.5, 0.0]]},
-        {"k": "poly", "v": [[-1.0, -1.0], [3.0, -1.0], [3.0, 1.0], [-1.0, 1.0]]},                  # reference point not at the centre
-        {"k": "poly", "v": [[0.0, 0.0], [4.0, 0.0], [4.0, 1.0], [1.0, 2.0]]},
-        {"k": "rect", "l": 4.0, "w": 2.0, "c": [1.5, -0.5], "o": 0.0},
-        {"k": "rect", "l": 4.0, "w": 2.0, "c": [0.0, 0.0], "o": 0.5},
-        {"k": "circ", "r": 1.5, "c": [1.0, 1.0]},
-        {"k": "group", "s": [{"k": "rect", "l": 4.0, "w": 2.0, "c": [0.0, 0.0], "o": 0.0}, {"k": "circ", "r": 1.0, "c": [0.0, 0.0]}]},
-    ])
-    u = {"shape": shape}
-    mode = r.choice(["ori", "pos", "both"])
-    centre = [r.randint(-160, 160) / 16.0, r.randint(-160, 160) / 16.0]
-    if mode in ("ori", "both"):
-        half = r.choice([0.0, 0.05, 0.3, 0.7, 1.2, math.pi / 2, 2.0, 3.0])
-        mid = r.uniform(-3.0, 3.0)
-        u["ori"] = [mid - half, mid + half]
-    else:
-        u["ori"] = r.uniform(-3.0, 3.0)
-    if mode in ("pos", "both"):
-        k = r.choice(["rect", "circ", "poly"])
-        if k == "rect":
-            u["pos"] = {"k": "rect", "l": r.randint(4, 64) / 16.0, "w": r.randint(4, 64) / 16.0, "c": centre,
-                        "o": r.choice([0.0, 0.4, r.uniform(-3, 3)])}
-        elif k == "circ":
-            u["pos"] = {"k": "circ", "r": r.randint(4, 48) / 16.0, "c": centre}
-        else:
-            a, b = r.randint(8, 48) / 16.0, r.randint(8, 48) / 16.0
-            u["pos"] = {"k": "poly", "v": [[centre[0] - a, centre[1] - b], [centre[0] + a, centre[1] - b],
-                                           [centre[0] + a, centre[1] + b], [centre[0] - a, centre[1] + b]]}
-    else:
-        u["pos"] = centre
-    return u
+def probe_ts(o):
+    """The few steps a history is re-judged at after every mutation: around the initial step and both horizon ends."""
+    lo, hi = horizon(o)
+    ti = o["t_init"] if o["kind"] not in ("phantom", "environment") else lo
+    ts = {ti - 1, ti, ti + 1, lo, hi, hi + 1, (lo + hi) // 2}
+    if o.get("set"):                       # every stored occupancy is looked at (an edit of any of them has to show)
+        for oc in o["set"]["occs"][:8]:
+            ts.update((oc["time"][0], oc["time"][-1]))
+    return sorted(ts)
 
 
 # ------------------------------------------------------------------------------------------------ real objects
 
-def build_state(cls, t, p):
+def np_pos(p):
     import numpy as np
+    num = p.get("num", "float")
+    if num == "int":
+        return np.array([int(p["pos"][0]), int(p["pos"][1])])
+    if num == "f32":
+        return np.array(p["pos"], dtype=np.float32)
+    return np.array(p["pos"], dtype=float)
+
+
+def np_num(v, num):
+    import numpy as np
+    if num == "int":
+        return int(v)
+    if num == "f32":
+        return np.float32(v)
+    if num == "np64":
+        return np.float64(v)
+    return v
+
+
+def build_state(cls, t, p, extra=False, minimal=False):
     import commonroad.scenario.state as S
-    pos = np.array(p["pos"], dtype=float)
+    pos, num = np_pos(p), p.get("num", "float")
+    xtra = {"lanelet_guess": 7, "acceleration": 0.5} if extra else {}
     if cls == "PMState":
-        return S.PMState(time_step=t, position=pos, velocity=p["vx"], velocity_y=p["vy"])
+        return S.PMState(time_step=t, position=pos, velocity=np_num(p["vx"], num), velocity_y=np_num(p["vy"], num))
+    if cls == "CustomPM":          # a state WITHOUT orientation: the heading is atan2(velocity_y, velocity)
+        return S.CustomState(time_step=t, position=pos, velocity=np_num(p["vx"], num), velocity_y=np_num(p["vy"], num), **xtra)
+    ori = np_num(p["ori"], "float" if num == "f32" else num)     # a float32 ANGLE would make the sum with the shape's angle float32
     if cls == "CustomState":
-        return S.CustomState(time_step=t, position=pos, orientation=p["ori"], velocity=1.0)
+        return S.CustomState(time_step=t, position=pos, orientation=ori, velocity=1.0, **xtra)
     if cls == "InitialState":
-        return S.InitialState(time_step=t, position=pos, orientation=p["ori"], velocity=0.0, acceleration=0.0, yaw_rate=0.0,
-                              slip_angle=0.0)
-    return getattr(S, cls)(time_step=t, position=pos, orientation=p["ori"], velocity=1.0)
+        if minimal:
+            return S.InitialState(time_step=t, position=pos, orientation=ori)
+        return S.InitialState(time_step=t, position=pos, orientation=ori, velocity=0.0, acceleration=0.0, yaw_rate=0.0, slip_angle=0.0)
+    if cls == "KSTState":
+        return S.KSTState(time_step=t, position=pos, orientation=ori, velocity=1.0, steering_angle=0.1, hitch_angle=0.3)
+    if cls == "STDState":
+        return S.STDState(time_step=t, position=pos, orientation=ori, velocity=1.0, steering_angle=0.0, slip_angle=0.1, yaw_rate=0.2,
+                          front_wheel_angular_speed=3.0, rear_wheel_angular_speed=3.0)
+    if cls == "MBState":           # has an orientation AND a velocity_y: the orientation is the heading
+        return S.MBState(time_step=t, position=pos, orientation=ori, velocity=1.0, velocity_y=2.5, yaw_rate=0.1, steering_angle=0.0)
+    if cls == "ExtendedPMState":
+        return S.ExtendedPMState(time_step=t, position=pos, orientation=ori, velocity=1.5, acceleration=0.0)
+    return getattr(S, cls)(time_step=t, position=pos, orientation=ori, velocity=1.0)
+
+
+def build_signal(t):
+    from commonroad.scenario.state import SignalState
+    return SignalState(time_step=t, horn=bool(t % 2), indicator_left=True, indicator_right=False, braking_lights=False,
+                       hazard_warning_lights=False, flashing_blue_lights=False)
+
+
+def build_occs(sp):
+    """The Occupancy list of a set-based spec; entries with the same label are ONE object."""
+    from commonroad.common.util import Interval
+    from commonroad.prediction.prediction import Occupancy
+    by_lab, out = {}, []
+    for i, oc in enumerate(sp["occs"]):
+        lab = oc.get("lab", ("u", i))
+        if lab not in by_lab:
+            by_lab[lab] = Occupancy(oc["time"][0] if len(oc["time"]) == 1 else Interval(oc["time"][0], oc["time"][1]),
+                                    geom.build_shape(oc["shape"]))
+        out.append(by_lab[lab])
+    return out
+
+
+def build_setpred(sp):
+    from commonroad.prediction.prediction import SetBasedPrediction
+    return SetBasedPrediction(sp["t0"], build_occs(sp))
+
+
+def build_traj(tr):
+    from commonroad.scenario.trajectory import Trajectory
+    return Trajectory(tr["t0"], [build_state(tr["cls"], tr["t0"] + i, p, extra=tr.get("extra", False)) for i, p in enumerate(tr["states"])])
+
+
+def build_trajpred(tr, obstacle_shape, shape_spec):
+    from commonroad.prediction.prediction import TrajectoryPrediction
+    ps = tr.get("pshape", "same")
+    shape = obstacle_shape if ps == "same" else geom.build_shape(shape_spec) if ps == "copy" else geom.build_shape(ps)
+    asg = {None: None, "empty": {}, "some": {tr["t0"]: {100}, tr["t0"] + 1: {100, 101}}}
+    kw = {"wheelbase": [2.5, 4.0]} if tr.get("kw") else {}
+    if tr.get("cla") is None and tr.get("sla") is None and not kw:
+        return TrajectoryPrediction(build_traj(tr), shape)
+    return TrajectoryPrediction(build_traj(tr), shape, center_lanelet_assignment=asg[tr.get("cla")],
+                                shape_lanelet_assignment=asg[tr.get("sla")], **kw)
+
+
+def build_prediction(o, obstacle_shape):
+    if o["kind"] == "dynamic-traj":
+        return build_trajpred(o["traj"], obstacle_shape, o["shape"])
+    if o["kind"] == "dynamic-set":
+        return build_setpred(o["set"])
+    return None
+
+
+def opt_kwargs(o):
+    from commonroad.scenario.state import MetaInformationState
+    opt, t0 = o.get("opt") or {}, o["t_init"]
+    if not opt:
+        return {}
+    ids = lambda v: None if v is None else set(v)  # noqa
+    ser = lambda n, f: None if n is None else [f(i) for i in range(n)]  # noqa
+    kw = {"initial_center_lanelet_ids": ids(opt.get("center_ids")), "initial_shape_lanelet_ids": ids(opt.get("shape_ids")),
+          "initial_signal_state": {None: None, "at-init": build_signal(t0), "other": build_signal(t0 + 2)}[opt.get("signal")],
+          "signal_series": ser(opt.get("signal_series"), lambda i: build_signal(t0 + 1 + i))}
+    if o["kind"].startswith("dynamic"):
+        kw.update({"initial_meta_information_state": MetaInformationState(meta_data_str={"a": "b"}, meta_data_int={"n": 1})
+                   if opt.get("meta") else None,
+                   "meta_information_series": ser(opt.get("meta_series"), lambda i: MetaInformationState(meta_data_int={"i": i})),
+                   "external_dataset_id": opt.get("ext_id"),
+                   "history": ser(opt.get("history"), lambda i: build_state("InitialState", t0 - 2 + i, {"pos": [float(i), 1.0], "ori": 0.25})),
+                   "signal_history": ser(opt.get("signal_history"), lambda i: build_signal(t0 - 2 + i)),
+                   "center_lanelet_ids_history": ser(opt.get("cl_hist"), lambda i: {100}),
+                   "shape_lanelet_ids_history": ser(opt.get("sl_hist"), lambda i: {100, 101})})
+        if opt.get("kw"):
+            kw["wheelbase"] = [2.5]
+    return kw
 
 
 def build_obstacle(o):
-    from commonroad.common.util import Interval
-    from commonroad.prediction.prediction import Occupancy, SetBasedPrediction, TrajectoryPrediction
     from commonroad.scenario.obstacle import (DynamicObstacle, EnvironmentObstacle, ObstacleType, PhantomObstacle, StaticObstacle)
-    from commonroad.scenario.trajectory import Trajectory
     otype = list(ObstacleType)[o["type"]]
     shape = geom.build_shape(o["shape"])
-    init = build_state("InitialState", o["t_init"], o["init"])
     k = o["kind"]
-
-    def setpred(sp):
-        occs = [Occupancy(oc["time"][0] if len(oc["time"]) == 1 else Interval(oc["time"][0], oc["time"][1]),
-                          geom.build_shape(oc["shape"])) for oc in sp["occs"]]
-        return SetBasedPrediction(sp["t0"], occs)
-    if k == "static":
-        return StaticObstacle(o["id"], otype, shape, init)
     if k == "environment":
         return EnvironmentObstacle(o["id"], otype, shape)
     if k == "phantom":
-        return PhantomObstacle(o["id"], setpred(o["set"]) if o.get("set") else None)
-    pred = None
+        return PhantomObstacle(o["id"], build_setpred(o["set"]) if o.get("set") else None)
+    init = build_state("InitialState", o["t_init"], o["init"], minimal=o.get("init_min", False))
+    if k == "static":
+        return StaticObstacle(o["id"], otype, shape, init, **opt_kwargs(o))
+    pred = build_prediction(o, shape)
+    kw = opt_kwargs(o)
+    if not kw and pred is None and o["id"] % 2 == 0:
+        return DynamicObstacle(o["id"], otype, shape, init)          # the prediction argument left at its default
+    return DynamicObstacle(o["id"], otype, shape, init, pred, **kw)
+
+
+def ts_model(oc):
+    return list(oc["time"])
+
+
+def model_pred(o):
+    k = o["kind"]
     if k == "dynamic-traj":
         tr = o["traj"]
-        sts = [build_state(tr["cls"], tr["t0"] + i, p) for i, p in enumerate(tr["states"])]
-        pred = TrajectoryPrediction(Trajectory(tr["t0"], sts), shape)
-    elif k == "dynamic-set":
-        pred = setpred(o["set"])
-    return DynamicObstacle(o["id"], otype, shape, init, pred)
+        return {"k": "traj", "t0": tr["t0"], "ts": [tr["t0"] + i for i in range(len(tr["states"]))]}
+    if k == "dynamic-set":
+        return {"k": "set", "occs": [ts_model(oc) for oc in o["set"]["occs"]]}
+    return {"k": "none"}
 
 
 def model_obst(o):
@@ -211,14 +386,66 @@ def model_obst(o):
     if k == "environment":
         return {"k": "env"}
     if k == "phantom":
-        return {"k": "phantom", "occs": [oc["time"] for oc in o["set"]["occs"]] if o.get("set") else None}
-    if k == "dynamic-traj":
+        return {"k": "phantom", "occs": [ts_model(oc) for oc in o["set"]["occs"]] if o.get("set") else None}
+    return {"k": "dynamic", "t0": o["t_init"], "pred": model_pred(o)}
+
+
+def tag_dims(ctx, o):
+    """Buckets of the construction-time dimensions one obstacle spec exercises."""
+    ctx.tag("role/" + o["kind"], "shape/" + o["shape"]["k"])
+    if o["id"] == 0:
+        ctx.tag("dim/id-zero")
+    if o["id"] >= 2 ** 31:
+        ctx.tag("dim/id-large")
+    if o["type"] >= 8:
+        ctx.tag("dim/type-upper")
+    opt = o.get("opt") or {}
+    if opt:
+        ctx.tag("dim/optional-args")
+        if opt.get("center_ids") or opt.get("shape_ids"):
+            ctx.tag("dim/lanelet-ids")
+        if opt.get("signal") or opt.get("signal_series"):
+            ctx.tag("dim/signal")
+        if opt.get("meta") or opt.get("meta_series") or opt.get("ext_id") is not None:
+            ctx.tag("dim/meta")
+        if opt.get("history") or opt.get("signal_history") or opt.get("cl_hist") or opt.get("sl_hist"):
+            ctx.tag("dim/history-arg")
+        if opt.get("kw"):
+            ctx.tag("dim/kwargs")
+    if o["kind"] not in ("phantom", "environment"):
+        ctx.tag("dim/num-" + o["init"].get("num", "float"))
+        if o.get("init_min"):
+            ctx.tag("dim/init-minimal")
+    if o["kind"] == "dynamic-traj":
         tr = o["traj"]
-        return {"k": "dynamic", "t0": o["t_init"], "pred": {"k": "traj", "t0": tr["t0"],
-                                                          "ts": [tr["t0"] + i for i in range(len(tr["states"]))]}}
-    if k == "dynamic-set":
-        return {"k": "dynamic", "t0": o["t_init"], "pred": {"k": "set", "occs": [oc["time"] for oc in o["set"]["occs"]]}}
-    return {"k": "dynamic", "t0": o["t_init"], "pred": {"k": "none"}}
+        ctx.tag("state/" + tr["cls"])
+        for p in tr["states"]:
+            ctx.tag("dim/num-" + p.get("num", "float"))
+        if tr.get("extra"):
+            ctx.tag("dim/custom-extra")
+        if tr["t0"] == o["t_init"]:
+            ctx.tag("dim/traj-starts-at-init")
+        if tr["t0"] < o["t_init"]:
+            ctx.tag("dim/traj-starts-before-init")
+        ps = tr.get("pshape", "same")
+        if ps != "same":
+            ctx.tag("dim/pred-shape-copy" if ps == "copy" else "dim/pred-shape-other")
+        if tr.get("cla") or tr.get("sla"):
+            ctx.tag("dim/lanelet-assignment")
+        if tr.get("kw"):
+            ctx.tag("dim/kwargs")
+    sp = o.get("set")
+    if sp:
+        if sp.get("unsorted"):
+            ctx.tag("set/unsorted")
+        if not sp["occs"]:
+            ctx.tag("dim/set-empty")
+        if any(oc.get("nested") for oc in sp["occs"]):
+            ctx.tag("dim/set-nested")
+        if sp.get("dup"):
+            ctx.tag("dim/set-duplicate-object")
+        if sp["occs"] and sp["t0"] != min(oc["time"][0] for oc in sp["occs"]):
+            ctx.tag("dim/set-t0-inconsistent")
 
 
 # ------------------------------------------------------------------------------------------------ geometry oracle
@@ -361,16 +588,50 @@ def pose_of(o, ref):
     if ref == "init":
         return o["init"]["pos"], o["init"]["ori"]
     p = o["traj"]["states"][ref[1]]
-    if o["traj"]["cls"] == "PMState":
+    if o["traj"]["cls"] in PM_LIKE:
         return p["pos"], math.atan2(p["vy"], p["vx"])
     return p["pos"], p["ori"]
 
 
+def placed_shape_spec(o, ref):
+    """The shape that is placed: the obstacle's at the initial step, the prediction's afterwards (see ASSUMPTIONS)."""
+    if ref != "init" and isinstance(o["traj"].get("pshape"), dict):
+        return o["traj"]["pshape"]
+    return o["shape"]
+
+
+def time_in(oc, t):
+    return (len(oc["time"]) == 1 and oc["time"][0] == t) or (len(oc["time"]) == 2 and oc["time"][0] <= t <= oc["time"][1])
+
+
+def expectation(o, t):
+    """From the property text: (occupancy defined?, pose reference or None, state defined? / None when the role has no states)."""
+    k = o["kind"]
+    if k == "static":
+        return True, "init", True
+    if k == "environment":
+        return True, None, None
+    if k == "phantom":
+        return bool(o.get("set")) and any(time_in(oc, t) for oc in o["set"]["occs"]), None, None
+    if t == o["t_init"]:
+        return True, "init", True
+    if t < o["t_init"]:
+        return False, None, False
+    if k == "dynamic-traj":
+        tr = o["traj"]
+        if tr["t0"] <= t < tr["t0"] + len(tr["states"]):
+            return True, ["traj", t - tr["t0"]], True
+        return False, None, False
+    if k == "dynamic-set":
+        return any(time_in(oc, t) for oc in o["set"]["occs"]), None, False
+    return False, None, False
+
+
 # ------------------------------------------------------------------------------------------------ per-obstacle check
 
-def classify(obj, o, occ_ref, t):
+def classify(obj, o, t):
     """Implementation answers in the model's vocabulary (by object identity through public accessors)."""
-    from commonroad.scenario.obstacle import DynamicObstacle, EnvironmentObstacle, PhantomObstacle, StaticObstacle
+    from commonroad.scenario.obstacle import EnvironmentObstacle, PhantomObstacle
     with warnings.catch_warnings():
         warnings.simplefilter("ignore")
         r = call(obj.occupancy_at_time, t)
@@ -380,122 +641,513 @@ def classify(obj, o, occ_ref, t):
             rs = ("ok", None)
         else:
             rs = call(obj.state_at_time, t)
-    if r[0] != "ok":
-        return {"err": r[1], "msg": r[2]}, None, None
-    if rs[0] != "ok":
-        return {"err": rs[1], "msg": rs[2]}, None, None
-    occ, st = r[1], rs[1]
-    oc = None
-    if occ is not None:
-        pred = getattr(obj, "prediction", None)
-        if isinstance(obj, EnvironmentObstacle):
-            oc = "shape" if occ.shape is obj.obstacle_shape else "?"
-        elif occ_ref is not None and occ.shape is occ_ref:
-            oc = "init"
-        elif pred is not None and any(occ is x for x in pred.occupancy_set):
-            i = [j for j, x in enumerate(pred.occupancy_set) if occ is x][0]
-            oc = ["placed" if o["kind"] == "dynamic-traj" else "stored", i]
-        else:
-            oc = "?"
-    sr = None
-    if st is not None:
-        if st is obj.initial_state:
-            sr = "init"
-        else:
+        if r[0] != "ok":
+            return {"err": r[1], "msg": r[2]}, None, None
+        if rs[0] != "ok":
+            return {"err": rs[1], "msg": rs[2]}, None, None
+        occ, st = r[1], rs[1]
+        oc = None
+        if occ is not None:
             pred = getattr(obj, "prediction", None)
-            idx = [j for j, x in enumerate(pred.trajectory.state_list) if x is st] if pred is not None and hasattr(pred, "trajectory") else []
-            sr = ["traj", idx[0]] if idx else "?"
+            if isinstance(obj, EnvironmentObstacle):
+                oc = "shape" if occ.shape is obj.obstacle_shape else "?"
+            elif not isinstance(obj, PhantomObstacle) and occ.shape is obj.occupancy_at_time(obj.initial_state.time_step).shape:
+                oc = "init"
+            elif pred is not None and any(occ is x for x in pred.occupancy_set):
+                i = [j for j, x in enumerate(pred.occupancy_set) if occ is x][0]
+                oc = ["placed" if o["kind"] == "dynamic-traj" else "stored", i]
+            else:
+                oc = "?"
+        sr = None
+        if st is not None:
+            if st is obj.initial_state:
+                sr = "init"
+            else:
+                pred = getattr(obj, "prediction", None)
+                idx = [j for j, x in enumerate(pred.trajectory.state_list) if x is st] if pred is not None and hasattr(pred, "trajectory") else []
+                sr = ["traj", idx[0]] if idx else "?"
     return {"occ": oc, "st": sr}, occ, st
 
 
-def run_obstacle(ctx, case):
+def judge(ctx, obj, o, ts, mk_sub, after=None, place_corr=True):
+    """The oracle for ONE obstacle in its CURRENT state `o` at the steps `ts`; returns the classified answers (for the
+    correspondence with CR.Occ).  `after` names the last mutation of a history (part of the finding key)."""
+    import numpy as np
     from commonroad.common.util import Interval
-    o, ts = case["obst"], case["ts"]
-    ctx.tag("role/" + o["kind"])
-    if o.get("unsorted_set") and o.get("set"):
-        ctx.tag("set/unsorted")
-    ctx.tag("shape/" + o["shape"]["k"])
-    if o["kind"] == "dynamic-traj":
-        ctx.tag("state/" + o["traj"]["cls"])
-    try:
-        obj = build_obstacle(o)
-    except Exception as e:  # noqa
-        ctx.fail(f"C04/constructor/raises-{type(e).__name__}", f"building a valid {o['kind']} obstacle raised {e}", case)
-        return
-    occ_ref = None
-    if o["kind"] in ("static",) or o["kind"].startswith("dynamic"):
-        occ_ref = obj.occupancy_at_time(o["t_init"]).shape
+    k = o["kind"]
+    sfx = f"/after-{after}" if after else ""
+    lo, hi = horizon(o)
     impl = []
-    model = ctx.driver.ask("C04", "obstacle_at", {"obst": model_obst(o), "ts": ts})
-    lo, hi = ts[0] + 3, ts[-1] - 3
+    if k.startswith("dynamic") or k == "phantom":
+        have = type(obj.prediction).__name__
+        want = {"dynamic-traj": "TrajectoryPrediction", "dynamic-set": "SetBasedPrediction", "dynamic-none": "NoneType",
+                "phantom": "SetBasedPrediction" if o.get("set") else "NoneType"}[k]
+        if have != want:
+            ctx.fail(f"C04/{k}.prediction/not-the-prediction-that-was-set{sfx}", f"the obstacle holds a {have}, the history set a {want}",
+                     mk_sub(ts[0] if ts else 0))
+            return [{"err": "prediction-kind"}]
     for t in ts:
-        ans, occ, st = classify(obj, o, occ_ref, t)
-        sub = {"kind": "obstacle", "obst": o, "ts": [t]}
+        ans, occ, st = classify(obj, o, t)
+        sub = mk_sub(t)
         ctx.tag("t/before" if t < lo else "t/initial" if t == lo else "t/after" if t > hi else "t/inside")
         if "err" in ans:
             impl.append({"err": ans["err"]})
-            ctx.fail(f"C04/{o['kind']}.occupancy_at_time/raises-{ans['err']}", f"t={t}: {ans['msg']}", sub)
+            ctx.fail(f"C04/{k}.occupancy_at_time/raises-{ans['err']}{sfx}", f"t={t}: {ans['msg']}", sub)
             continue
         impl.append(ans)
-        # ---- oracle, from the property text
-        k = o["kind"]
-        want_occ, want_pose = False, None
-        if k in ("static", "environment"):
-            want_occ = True
-            want_pose = "init" if k == "static" else None
-        elif k.startswith("dynamic"):
-            if t == o["t_init"]:
-                want_occ, want_pose = True, "init"
-            elif k == "dynamic-traj" and o["traj"]["t0"] <= t < o["traj"]["t0"] + len(o["traj"]["states"]) and t > o["t_init"]:
-                want_occ, want_pose = True, ["traj", t - o["traj"]["t0"]]
-            elif k == "dynamic-set" and t > o["t_init"]:
-                want_occ = any((len(oc["time"]) == 1 and oc["time"][0] == t) or (len(oc["time"]) == 2 and oc["time"][0] <= t <= oc["time"][1])
-                               for oc in o["set"]["occs"])
-        elif k == "phantom":
-            want_occ = bool(o.get("set")) and any((len(oc["time"]) == 1 and oc["time"][0] == t) or
-                                                  (len(oc["time"]) == 2 and oc["time"][0] <= t <= oc["time"][1]) for oc in o["set"]["occs"])
+        want_occ, want_pose, want_state = expectation(o, t)
         if (occ is not None) != want_occ:
-            ctx.fail(f"C04/{k}.occupancy_at_time/" + ("missing-inside-horizon" if want_occ else "present-outside-horizon"),
+            ctx.fail(f"C04/{k}.occupancy_at_time/" + ("missing-inside-horizon" if want_occ else "present-outside-horizon") + sfx,
                      f"t={t}: occupancy {'None' if occ is None else 'returned'}, horizon says {'defined' if want_occ else 'None'}", sub)
             continue
         if occ is not None:
             if k in ("dynamic-set", "phantom") and want_pose is None:
                 ts_ = occ.time_step
                 inside = ts_.contains(t) if isinstance(ts_, Interval) else ts_ == t
-                stored = any(occ is x for x in obj.prediction.occupancy_set)
-                if not (inside and stored):
-                    ctx.fail(f"C04/{k}.occupancy_at_time/wrong-stored-occupancy", f"t={t}: returned occupancy has time {ts_}", sub)
+                idx = [j for j, x in enumerate(obj.prediction.occupancy_set) if occ is x]
+                if not (inside and idx):
+                    ctx.fail(f"C04/{k}.occupancy_at_time/wrong-stored-occupancy{sfx}", f"t={t}: returned occupancy has time {ts_}", sub)
+                elif idx[0] < len(o["set"]["occs"]) and not same_geometry(
+                        shape_points(occ.shape), expected_placement(o["set"]["occs"][idx[0]]["shape"], [0.0, 0.0], 0.0)):
+                    ctx.fail(f"C04/{k}.occupancy_at_time/stored-occupancy-wrong-region{sfx}",
+                             f"t={t}: the stored occupancy no. {idx[0]} does not have the region it was given", sub)
             elif k == "environment":
-                if not same_geometry(shape_points(occ.shape), expected_placement(o["shape"], [0.0, 0.0], 0.0)):
-                    ctx.fail("C04/environment.occupancy_at_time/wrong-region", f"t={t}", sub)
+                if occ.shape is not obj.obstacle_shape or not same_geometry(shape_points(occ.shape), expected_placement(o["shape"], [0.0, 0.0], 0.0)):
+                    ctx.fail(f"C04/environment.occupancy_at_time/wrong-region{sfx}", f"t={t}", sub)
             else:
                 pos, th = pose_of(o, want_pose)
-                # correspondence with the placement model (CR.Place.place; cos/sin are parameters evaluated here)
-                mp = ctx.driver.ask("C04", "place", {"c": rat(math.cos(th)), "s": rat(math.sin(th)), "a": rat(th), "tau": rat(2.0 * math.pi),
-                                                      "t": [rat(pos[0]), rat(pos[1])], "shape": wire_shape(o["shape"])})
-                okm = same_geometry(shape_points(occ.shape), model_points(mp))
-                ctx.compare(sub, "placement within 1e-9" if okm else shape_points(occ.shape),
-                            "placement within 1e-9" if okm else model_points(mp), "occupancy geometry vs CR.Place.place")
-                ctx.tag("place/" + o["shape"]["k"])
-                if not same_geometry(shape_points(occ.shape), expected_placement(o["shape"], pos, th)):
-                    ctx.fail(f"C04/{k}.occupancy_at_time/wrong-placement",
+                spec = placed_shape_spec(o, want_pose)
+                if place_corr:
+                    # correspondence with the placement model (CR.Place.place; cos/sin are parameters evaluated here)
+                    mp = ctx.driver.ask("C04", "place", {"c": rat(math.cos(th)), "s": rat(math.sin(th)), "a": rat(th), "tau": rat(2.0 * math.pi),
+                                                          "t": [rat(pos[0]), rat(pos[1])], "shape": wire_shape(spec)})
+                    okm = same_geometry(shape_points(occ.shape), model_points(mp))
+                    ctx.compare(sub, "placement within 1e-9" if okm else shape_points(occ.shape),
+                                "placement within 1e-9" if okm else model_points(mp), "occupancy geometry vs CR.Place.place")
+                    ctx.tag("place/" + spec["k"])
+                if not same_geometry(shape_points(occ.shape), expected_placement(spec, pos, th)):
+                    ctx.fail(f"C04/{k}.occupancy_at_time/wrong-placement{sfx}",
                              f"t={t}: occupancy {shape_points(occ.shape)} is not the shape placed at pos={pos}, heading={th}", sub)
                 if k != "static" and occ.time_step != t:
-                    ctx.fail(f"C04/{k}.occupancy_at_time/wrong-time-stamp", f"t={t}: occupancy stamped {occ.time_step}", sub)
+                    ctx.fail(f"C04/{k}.occupancy_at_time/wrong-time-stamp{sfx}", f"t={t}: occupancy stamped {occ.time_step}", sub)
         # state
         if k.startswith("dynamic"):
-            want_state = t == o["t_init"] or (k == "dynamic-traj" and t > o["t_init"] and
-                                              o["traj"]["t0"] <= t < o["traj"]["t0"] + len(o["traj"]["states"]))
             if (st is not None) != want_state:
-                ctx.fail(f"C04/{k}.state_at_time/" + ("missing" if want_state else "present-outside-horizon"), f"t={t}", sub)
+                ctx.fail(f"C04/{k}.state_at_time/" + ("missing" if want_state else "present-outside-horizon") + sfx, f"t={t}", sub)
             elif st is not None and st.time_step != t:
-                ctx.fail(f"C04/{k}.state_at_time/wrong-time-step", f"asked t={t}, got the state of time step {st.time_step}", sub)
+                ctx.fail(f"C04/{k}.state_at_time/wrong-time-step{sfx}", f"asked t={t}, got the state of time step {st.time_step}", sub)
         elif k == "static" and st is not obj.initial_state:
-            ctx.fail("C04/static.state_at_time/not-initial-state", f"t={t}", sub)
-    ctx.compare(case, [{k: v for k, v in a.items()} for a in impl], model, "occupancy_at_time/state_at_time vs CR.Occ")
+            ctx.fail(f"C04/static.state_at_time/not-initial-state{sfx}", f"t={t}", sub)
+        # alternative entry points: the prediction and the trajectory asked directly give the very same objects
+        pred = getattr(obj, "prediction", None)
+        if pred is not None and (k == "phantom" or t > o["t_init"]):
+            with warnings.catch_warnings():
+                warnings.simplefilter("ignore")
+                ctx.tag("entry/prediction.occupancy_at_time_step")
+                r2 = call(pred.occupancy_at_time_step, t)
+                if r2[0] != "ok" or r2[1] is not occ:
+                    ctx.fail(f"C04/{k}.prediction.occupancy_at_time_step/differs-from-obstacle-level{sfx}",
+                             f"t={t}: {r2[2] if r2[0] != 'ok' else 'another object / None'}", sub)
+                if k == "dynamic-traj":
+                    ctx.tag("entry/trajectory.state_at_time_step")
+                    r3, r4 = call(pred.trajectory.state_at_time_step, t), call(pred.trajectory.states_in_time_interval, t, t)
+                    if r3[0] != "ok" or r3[1] is not st or r4[0] != "ok" or len(r4[1]) != 1 or r4[1][0] is not st:
+                        ctx.fail(f"C04/{k}.trajectory.state_at_time_step/differs-from-obstacle-level{sfx}", f"t={t}", sub)
+        # numpy integer query steps: the int answer, or a clean rejection (ASSUMPTIONS)
+        if (t + o["id"]) % 7 == 0:
+            ctx.tag("dim/numpy-step")
+            for nt in (np.int64(t), np.int32(t)):
+                with warnings.catch_warnings():
+                    warnings.simplefilter("ignore")
+                    rn = call(obj.occupancy_at_time, nt)
+                if rn[0] == "err" and rn[1] == "assert":
+                    continue
+                if rn[0] == "err":
+                    ctx.fail(f"C04/{k}.occupancy_at_time/numpy-step-raises-{rn[1]}{sfx}", f"t={type(nt).__name__}({t}): {rn[2]}", sub)
+                elif (rn[1] is None) != (occ is None) or (occ is not None and (
+                        rn[1].time_step != occ.time_step or not same_geometry(shape_points(rn[1].shape), shape_points(occ.shape)))):
+                    ctx.fail(f"C04/{k}.occupancy_at_time/numpy-step-different-answer{sfx}", f"t={type(nt).__name__}({t})", sub)
+    return impl
+
+
+# ------------------------------------------------------------------------------------------------ histories of one obstacle
+
+def new_occ(r, sp, t):
+    oc = {"time": [t] if r.random() < 0.6 else [t, t + r.randint(0, 2)], "shape": geom.gen_shape(r), "lab": sp["next"]}
+    return oc
+
+
+def gen_hop(r, o):
+    """One public mutation that fits the obstacle's current state `o`."""
+    k = o["kind"]
+    ti = o.get("t_init", 0)
+    common = ["translate_rotate", "noop_setters", "readonly", "clone"]
+    if k == "environment":
+        name = r.choice(common)
+    elif k == "phantom":
+        name = r.choice(common + ["phantom_prediction"] * 2 + (["occ_set"] * 4 if o.get("set") else []))
+    elif k == "static":
+        name = r.choice(common + ["set_initial"] * 3 + ["reassign"])
+    else:
+        name = r.choice(common + ["set_initial", "set_initial", "update_initial", "update_initial", "update_initial_fail", "set_prediction",
+                                  "set_prediction", "reassign"] +
+                        (["set_trajectory"] * 4 + ["set_pred_shape"] * 3 if k == "dynamic-traj" else []) +
+                        (["occ_set"] * 4 if k == "dynamic-set" else []))
+    op = {"op": name}
+    if name == "translate_rotate":
+        op.update(tr=[r.randint(-80, 80) / 16.0, r.randint(-80, 80) / 16.0], angle=r.choice([0.0, math.pi / 2, -1.0, 2.5, r.uniform(-6.2, 6.2)]))
+    elif name == "clone":
+        op["how"] = r.choice(["deepcopy", "pickle", "copy"])
+    elif name == "reassign":
+        op["what"] = r.choice({"static": ["initial_state"], "dynamic-none": ["initial_state", "prediction"],
+                               "dynamic-set": ["initial_state", "prediction", "occupancy_set"],
+                               "dynamic-traj": ["initial_state", "prediction", "trajectory", "pred_shape"]}[k])
+    elif name == "set_initial":
+        op.update(t=max(0, ti + r.choice([0, 0, 1, 2, -1, 4])), pose=gen_pose(r), inplace=r.random() < 0.4, minimal=r.random() < 0.2)
+    elif name == "update_initial":
+        op.update(t=max(0, ti + r.choice([1, 1, 1, 0, 2, 5, -1])), pose=gen_pose(r), signal=r.random() < 0.5, cl=gen_ids(r), sl=gen_ids(r),
+                  maxlen=r.choice([None, None, 1, 2, 6000]), form=r.choice(["pos", "kw"]))
+    elif name == "update_initial_fail":
+        op.update(why=r.choice(["maxlen0", "not-initial-state"]), t=ti + 1, pose=gen_pose(r))
+    elif name == "set_trajectory":
+        op["traj"] = gen_traj(r, ti, cls=r.choice([None, o["traj"]["cls"]]))
+    elif name == "set_pred_shape":
+        op["shape"] = geom.gen_shape(r)
+    elif name == "set_prediction":
+        pk = r.choice(["traj", "traj", "set", "none"])
+        op.update(kind=pk, via=r.choice(["setter", "update_prediction", "update_prediction_kw"]))
+        if pk == "traj":
+            op["traj"] = dict(gen_traj(r, ti), pshape=r.choice(["same", "copy"]), cla=None, sla=None, kw=False)
+        elif pk == "set":
+            op["set"] = gen_set(r, ti + 1, lo=0)
+    elif name == "phantom_prediction":
+        op["set"] = None if r.random() < 0.25 else gen_set(r, r.randint(0, 5), lo=0)
+    elif name == "occ_set":
+        sp = o["set"]
+        how = r.choice(["setter", "append", "insert0", "pop", "clear", "edit_time", "edit_shape", "append", "insert0"])
+        if how in ("pop", "edit_time", "edit_shape") and not sp["occs"]:
+            how = "append"
+        op["how"] = how
+        lo, hi = horizon(o)
+        if how == "setter":
+            occs = gen_set(r, ti + 1 if k != "phantom" else r.randint(0, 4), lo=0)["occs"]
+            for oc in occs:
+                oc["lab"] += sp["next"]
+            op["occs"] = occs
+        elif how in ("append", "insert0"):
+            op["occ"] = new_occ(r, sp, r.randint(max(0, lo - 1), hi + 2))
+        elif how == "edit_time":
+            op.update(idx=r.randrange(len(sp["occs"])), time=r.choice([[hi + 1], [max(0, lo - 1), lo], [lo, hi + 1]]))
+        elif how == "edit_shape":
+            op.update(idx=r.randrange(len(sp["occs"])), shape=geom.gen_shape(r))
+    return op
+
+
+def apply_hop_spec(o, op):
+    """The obstacle's state after the mutation, as the property sees it, and the model's mutation (CR.Occ.Mut)."""
+    o = json.loads(json.dumps(o))
+    name, mut = op["op"], {"m": "keep"}
+    if name == "set_initial":
+        o.update(t_init=op["t"], init=op["pose"], init_min=op.get("minimal", False))
+        mut = {"m": "set_initial", "t": op["t"]}
+    elif name == "update_initial":
+        o.update(kind="dynamic-none", t_init=op["t"], init=op["pose"], init_min=False)
+        o.pop("traj", None)
+        o.pop("set", None)
+        mut = {"m": "update_initial", "t": op["t"]}
+    elif name == "set_trajectory":
+        o["traj"].update(t0=op["traj"]["t0"], cls=op["traj"]["cls"], states=op["traj"]["states"], extra=op["traj"].get("extra", False))
+        mut = {"m": "set_prediction", "pred": model_pred(o)}
+    elif name == "set_pred_shape":
+        o["traj"]["pshape"] = op["shape"]
+    elif name == "set_prediction":
+        o.pop("traj", None)
+        o.pop("set", None)
+        o["kind"] = "dynamic-" + op["kind"]
+        if op["kind"] == "traj":
+            o["traj"] = op["traj"]
+        elif op["kind"] == "set":
+            o["set"] = op["set"]
+        mut = {"m": "set_prediction", "pred": model_pred(o)}
+    elif name == "phantom_prediction":
+        o["set"] = op["set"]
+        mut = {"m": "set_phantom", "occs": [ts_model(oc) for oc in o["set"]["occs"]] if o["set"] else None}
+    elif name == "occ_set":
+        sp, how = o["set"], op["how"]
+        if how == "setter":
+            sp["occs"] = op["occs"]
+            sp["next"] = max([sp["next"]] + [oc["lab"] + 1 for oc in op["occs"]])
+        elif how == "append":
+            sp["occs"].append(op["occ"])
+            sp["next"] += 1
+        elif how == "insert0":
+            sp["occs"].insert(0, op["occ"])
+            sp["next"] += 1
+        elif how == "pop":
+            sp["occs"].pop()
+        elif how == "clear":
+            sp["occs"] = []
+        elif how in ("edit_time", "edit_shape"):
+            lab = sp["occs"][op["idx"]].get("lab")
+            for i, oc in enumerate(sp["occs"]):
+                if i == op["idx"] or (lab is not None and oc.get("lab") == lab):
+                    if how == "edit_time":
+                        oc["time"] = op["time"]
+                    else:
+                        oc["shape"] = op["shape"]
+        mut = {"m": "set_phantom", "occs": [ts_model(oc) for oc in sp["occs"]]} if o["kind"] == "phantom" else \
+            {"m": "set_prediction", "pred": model_pred(o)}
+    return o, mut
+
+
+def readback(obj, o):
+    """After a rigid motion: the spec with the poses / regions the obstacle's states and stored occupancies NOW have."""
+    o = json.loads(json.dumps(o))
+    k = o["kind"]
+    if k == "environment":
+        o["shape"] = geom.spec_of_shape(obj.obstacle_shape)
+        return o
+    if k != "phantom":
+        s = obj.initial_state
+        o["init"] = {"pos": [float(s.position[0]), float(s.position[1])], "ori": float(s.orientation), "num": "float"}
+    if k == "dynamic-traj":
+        for p, s in zip(o["traj"]["states"], obj.prediction.trajectory.state_list):
+            p.update(pos=[float(s.position[0]), float(s.position[1])], num="float")
+            if o["traj"]["cls"] in PM_LIKE:
+                p.update(vx=float(s.velocity), vy=float(s.velocity_y))
+            else:
+                p["ori"] = float(s.orientation)
+    if o.get("set") and obj.prediction is not None:
+        for oc, x in zip(o["set"]["occs"], obj.prediction.occupancy_set):
+            oc["shape"] = geom.spec_of_shape(x.shape)
+    return o
+
+
+def apply_hop_obj(obj, o, op):
+    """Perform the mutation on the real object through its public interface. Returns (object to go on with, outcome)."""
+    import numpy as np
+    from commonroad.common.util import Interval
+    from commonroad.prediction.prediction import Occupancy
+    from commonroad.scenario.obstacle import ObstacleRole, ObstacleType
+    from commonroad.scenario.state import MetaInformationState
+    name, k = op["op"], o["kind"]
+
+    def do():
+        nonlocal obj
+        if name == "translate_rotate":
+            obj.translate_rotate(np.array(op["tr"]), op["angle"])
+        elif name == "clone":
+            obj = copy.deepcopy(obj) if op["how"] == "deepcopy" else pickle.loads(pickle.dumps(obj)) if op["how"] == "pickle" else copy.copy(obj)
+        elif name == "reassign":
+            w = op["what"]
+            if w == "initial_state":
+                obj.initial_state = obj.initial_state
+            elif w == "prediction":
+                obj.prediction = obj.prediction
+            elif w == "trajectory":
+                obj.prediction.trajectory = obj.prediction.trajectory
+            elif w == "pred_shape":
+                obj.prediction.shape = obj.prediction.shape
+            elif w == "occupancy_set":
+                obj.prediction.occupancy_set = obj.prediction.occupancy_set
+        elif name == "set_initial":
+            if op.get("inplace"):
+                s = obj.initial_state
+                num = op["pose"].get("num", "float")
+                s.time_step, s.position, s.orientation = op["t"], np_pos(op["pose"]), np_num(op["pose"]["ori"], "float" if num == "f32" else num)
+                obj.initial_state = s
+            else:
+                obj.initial_state = build_state("InitialState", op["t"], op["pose"], minimal=op.get("minimal", False))
+        elif name == "update_initial":
+            st = build_state("InitialState", op["t"], op["pose"])
+            sig = build_signal(op["t"]) if op["signal"] else None
+            cl, sl = (None if op["cl"] is None else set(op["cl"])), (None if op["sl"] is None else set(op["sl"]))
+            if op["form"] == "kw":
+                kw = dict(current_state=st, current_signal_state=sig, current_center_lanelet_ids=cl, current_shape_lanelet_ids=sl)
+                if op["maxlen"] is not None:
+                    kw["max_history_length"] = op["maxlen"]
+                obj.update_initial_state(**kw)
+            elif op["maxlen"] is not None:
+                obj.update_initial_state(st, sig, cl, sl, op["maxlen"])
+            elif sig is None and cl is None and sl is None:
+                obj.update_initial_state(st)
+            else:
+                obj.update_initial_state(st, sig, cl, sl)
+        elif name == "update_initial_fail":
+            if op["why"] == "maxlen0":
+                obj.update_initial_state(build_state("InitialState", op["t"], op["pose"]), max_history_length=0)
+            else:
+                obj.update_initial_state(build_state("KSState", op["t"], op["pose"]))
+        elif name == "set_trajectory":
+            obj.prediction.trajectory = build_traj(op["traj"])
+        elif name == "set_pred_shape":
+            obj.prediction.shape = geom.build_shape(op["shape"])
+        elif name == "set_prediction":
+            pred = None
+            if op["kind"] == "traj":
+                pred = build_trajpred(op["traj"], obj.obstacle_shape, o["shape"])
+            elif op["kind"] == "set":
+                pred = build_setpred(op["set"])
+            if op["via"] == "setter":
+                obj.prediction = pred
+            elif op["via"] == "update_prediction":
+                obj.update_prediction(pred)
+            else:
+                obj.update_prediction(prediction=pred, signal_series=[build_signal(o["t_init"] + 1)])
+        elif name == "phantom_prediction":
+            obj.prediction = build_setpred(op["set"]) if op["set"] else None
+        elif name == "occ_set":
+            pred, how = obj.prediction, op["how"]
+            mk = lambda oc: Occupancy(oc["time"][0] if len(oc["time"]) == 1 else Interval(oc["time"][0], oc["time"][1]),  # noqa
+                                      geom.build_shape(oc["shape"]))
+            if how == "setter":
+                pred.occupancy_set = build_occs({"occs": op["occs"]})
+            elif how == "append":
+                pred.occupancy_set.append(mk(op["occ"]))
+            elif how == "insert0":
+                pred.occupancy_set.insert(0, mk(op["occ"]))
+            elif how == "pop":
+                pred.occupancy_set.pop()
+            elif how == "clear":
+                del pred.occupancy_set[:]
+            elif how == "edit_time":
+                pred.occupancy_set[op["idx"]].time_step = op["time"][0] if len(op["time"]) == 1 else Interval(op["time"][0], op["time"][1])
+            elif how == "edit_shape":
+                pred.occupancy_set[op["idx"]].shape = geom.build_shape(op["shape"])
+        elif name == "noop_setters":
+            other_shape = geom.build_shape({"k": "rect", "l": 9.0, "w": 7.0, "c": [3.0, 3.0], "o": 0.5})
+            if k == "phantom":
+                obj.obstacle_role = ObstacleRole.STATIC
+            else:
+                obj.obstacle_id = o["id"] + 1
+                obj.obstacle_role = ObstacleRole.Phantom
+                obj.obstacle_type = ObstacleType.PILLAR if o["type"] != 14 else ObstacleType.CAR
+                obj.obstacle_shape = other_shape
+            if k == "static" or k.startswith("dynamic"):
+                obj.initial_center_lanelet_ids = {100}
+                obj.initial_shape_lanelet_ids = None
+                obj.initial_signal_state = build_signal(o["t_init"])
+                obj.signal_series = [build_signal(o["t_init"] + 1)]
+            if k.startswith("dynamic"):
+                obj.initial_meta_information_state = MetaInformationState(meta_data_bool={"x": True})
+                obj.meta_information_series = []
+                obj.external_dataset_id = 3
+                obj.history = []
+                obj.signal_history = [build_signal(0)]
+            if k == "dynamic-traj":
+                obj.prediction.center_lanelet_assignment = {o["traj"]["t0"]: {101}}
+                obj.prediction.shape_lanelet_assignment = None
+            # assignments the setters reject (AssertionError): the obstacle must be left as it was
+            bad = []
+            if k == "static" or k.startswith("dynamic"):
+                bad += [lambda: setattr(obj, "initial_state", build_state("KSState", 0, {"pos": [0.0, 0.0], "ori": 0.0})),
+                        lambda: setattr(obj, "initial_center_lanelet_ids", [100]), lambda: setattr(obj, "signal_series", (1, 2))]
+            if k.startswith("dynamic") or k == "phantom":
+                bad += [lambda: setattr(obj, "prediction", "no prediction")]
+            if k == "dynamic-traj":
+                bad += [lambda: setattr(obj.prediction, "trajectory", None), lambda: setattr(obj.prediction, "shape", None),
+                        lambda: setattr(obj.prediction, "shape_lanelet_assignment", [1])]
+            if o.get("set") and obj.prediction is not None:
+                bad += [lambda: setattr(obj.prediction, "occupancy_set", tuple(obj.prediction.occupancy_set)),
+                        lambda: setattr(obj.prediction, "occupancy_set", [None])]
+                if obj.prediction.occupancy_set:
+                    bad += [lambda: setattr(obj.prediction.occupancy_set[0], "time_step", 1.5),
+                            lambda: setattr(obj.prediction.occupancy_set[0], "shape", None)]
+            for f in bad:
+                rb = call(f)
+                if rb[0] == "ok":
+                    raise ValueError("a setter accepted a value of the wrong type")
+        elif name == "readonly":
+            t = o.get("t_init", 0)
+            for f in (lambda: hash(obj), lambda: obj == obj, lambda: obj == copy.copy(obj), lambda: str(obj),
+                      lambda: obj.signal_state_at_time_step(t), lambda: list(obj.prediction.occupancy_set),
+                      lambda: obj.prediction.final_time_step, lambda: obj.prediction.initial_time_step,
+                      lambda: obj.prediction.trajectory.final_state, lambda: obj.prediction.trajectory.states_in_time_interval(t - 1, t + 3),
+                      lambda: obj.occupancy_at_time(t + 1), lambda: obj.state_at_time(t + 1)):
+                call(f)           # their own results are other properties' subject; here they only have to leave the answers alone
+    with warnings.catch_warnings():
+        warnings.simplefilter("ignore")
+        r = call(do)
+    return obj, r
+
+
+def hop_tag(op):
+    n = op["op"]
+    if n == "set_initial" and op.get("inplace"):
+        return "hop/set_initial-inplace"
+    if n == "set_prediction" and op.get("via", "setter") != "setter":
+        return "hop/update_prediction"
+    return "hop/" + n
+
+
+def gen_history(r, o):
+    ops, cur = [], o
+    for _ in range(r.randint(2, 6)):
+        op = gen_hop(r, cur)
+        ops.append(op)
+        cur, _ = apply_hop_spec(cur, op)
+    return ops
+
+
+def shape_still_reported(ctx, obj, o, sub, sfx):
+    """`obstacle_shape` is what is placed: the attribute the obstacle reports must still be the shape the occupancies are made of."""
+    if o["kind"] in ("phantom",):
+        return
+    if not same_geometry(shape_points(obj.obstacle_shape), expected_placement(o["shape"], [0.0, 0.0], 0.0)) or \
+            obj.obstacle_id != o["id"]:
+        ctx.fail(f"C04/{o['kind']}.obstacle_shape/differs-from-placed-shape{sfx}",
+                 "the obstacle reports another obstacle_shape / obstacle_id than the one it was built with and is placed", sub)
+
+
+def run_history(ctx, case):
+    o, ops = case["obst"], case["ops"]
+    tag_dims(ctx, o)
+    try:
+        obj = build_obstacle(o)
+    except Exception as e:  # noqa
+        ctx.fail(f"C04/constructor/raises-{type(e).__name__}", f"building a valid {o['kind']} obstacle raised {e}", case)
+        return
+    o0, muts = o, []
+    judge(ctx, obj, o, probe_ts(o), lambda t: dict(case, ops=[]), place_corr=False)          # the first query (fills every cache)
+    for i, op in enumerate(ops):
+        sub = dict(case, ops=ops[:i + 1])
+        ctx.tag(hop_tag(op))
+        obj, r = apply_hop_obj(obj, o, op)
+        name = op["op"]
+        if name == "update_initial_fail":
+            if not (r[0] == "err" and r[1] == "assert"):
+                ctx.fail(f"C04/{o['kind']}.update_initial_state/accepts-{op['why']}",
+                         f"update_initial_state({op['why']}) -> {r[0] if r[0] == 'ok' else r[2]} (AssertionError documented)", sub)
+                return
+        elif r[0] != "ok":
+            ctx.fail(f"C04/{o['kind']}.{name}/raises-{r[1]}", f"{op}: {r[2]}", sub)
+            return
+        o, mut = apply_hop_spec(o, op)
+        if name == "translate_rotate":
+            o = readback(obj, o)
+        muts.append(mut)
+        sfx = f"/after-{name}"
+        shape_still_reported(ctx, obj, o, sub, sfx)
+        ts = probe_ts(o)
+        impl = judge(ctx, obj, o, ts, lambda t: sub, after=name, place_corr=(i == len(ops) - 1))
+        model = ctx.driver.ask("C04", "history", {"obst": model_obst(o0), "muts": muts, "ts": ts})
+        ctx.compare(sub, impl, model, f"answers after {[x['op'] for x in ops[:i + 1]]} vs CR.Occ.Obst.run")
+
+
+def run_obstacle(ctx, case):
+    o, ts = case["obst"], case["ts"]
+    tag_dims(ctx, o)
+    try:
+        obj = build_obstacle(o)
+    except Exception as e:  # noqa
+        ctx.fail(f"C04/constructor/raises-{type(e).__name__}", f"building a valid {o['kind']} obstacle raised {e}", case)
+        return
+    model = ctx.driver.ask("C04", "obstacle_at", {"obst": model_obst(o), "ts": ts})
+    shape_still_reported(ctx, obj, o, case, "")
+    impl = judge(ctx, obj, o, ts, lambda t: {"kind": "obstacle", "obst": o, "ts": [t]})
+    ctx.compare(case, impl, model, "occupancy_at_time/state_at_time vs CR.Occ")
     # the same obstacle after update_initial_state: the occupancy at the new initial step is the shape placed at the NEW initial state
     if o["kind"].startswith("dynamic") and o["id"] % 2 == 1 or o["kind"] == "dynamic-none":
-        o3 = json.loads(json.dumps(o))
         npose = {"pos": [o["init"]["pos"][0] + 2.5, o["init"]["pos"][1] - 1.5], "ori": o["init"]["ori"]}
         nt = o["t_init"] + 1
         obj2 = build_obstacle(o)
@@ -511,16 +1163,16 @@ def run_obstacle(ctx, case):
                     shape_points(occ5.shape), expected_placement(o["shape"], npose["pos"], npose["ori"])):
                 ctx.fail(f"C04/{o['kind']}.occupancy_at_time/stale-after-update_initial_state",
                          f"t={nt}: after update_initial_state the occupancy is not the shape placed at the new initial state", sub)
-        _ = o3
-    # the same obstacle after its prediction's trajectory / shape has been replaced through the public setters: occupancy and state
+    # the same obstacle after its prediction's trajectory has been replaced through the public setter: occupancy and state
     # must again be the shape placed at the (new) state of that step  (query -> replace -> query)
     if o["kind"] == "dynamic-traj":
         from commonroad.scenario.trajectory import Trajectory
         tr = o["traj"]
         o2 = json.loads(json.dumps(o))
-        sts2 = [dict(p, pos=[p["pos"][0] + 1.5, p["pos"][1] - 0.5]) for p in tr["states"]][: max(1, len(tr["states"]) - 1)]
+        sts2 = [dict(p, pos=[p["pos"][0] + 1.5, p["pos"][1] - 0.5], num="float") for p in tr["states"]][: max(1, len(tr["states"]) - 1)]
         o2["traj"]["states"] = sts2
-        obj.prediction.trajectory = Trajectory(tr["t0"], [build_state(tr["cls"], tr["t0"] + i, p) for i, p in enumerate(sts2)])
+        obj.prediction.trajectory = Trajectory(tr["t0"], [build_state(tr["cls"], tr["t0"] + i, p, extra=tr.get("extra", False))
+                                                          for i, p in enumerate(sts2)])
         ctx.tag("history/trajectory-replaced")
         for t in (tr["t0"], tr["t0"] + len(sts2) - 1, tr["t0"] + len(sts2)):
             if t <= o["t_init"]:
@@ -535,7 +1187,7 @@ def run_obstacle(ctx, case):
                 break
             if inside:
                 pos, th = pose_of(o2, ["traj", t - tr["t0"]])
-                if not same_geometry(shape_points(occ.shape), expected_placement(o["shape"], pos, th)):
+                if not same_geometry(shape_points(occ.shape), expected_placement(placed_shape_spec(o2, ["traj", 0]), pos, th)):
                     ctx.fail("C04/dynamic-traj.occupancy_at_time/stale-after-trajectory-replaced",
                              f"t={t}: occupancy is not the shape placed at the new trajectory state", sub)
                     break
@@ -543,28 +1195,118 @@ def run_obstacle(ctx, case):
 
 # ------------------------------------------------------------------------------------------------ uncertain states
 
-def run_uncertain(ctx, case):
+UNCERTAIN_SHAPES = [
+    {"k": "poly", "v": [[-2.0, -1.0], [2.0, -1.0], [2.0, 1.0], [-2.0, 1.0]]},
+    {"k": "poly", "v": [[-1.5, -0.75], [1.5, -0.75], [2.5, 0.0], [1.5, 0.75], [-1.5, 0.75], [-2.5, 0.0]]},
+    {"k": "poly", "v": [[-1.0, -1.0], [3.0, -1.0], [3.0, 1.0], [-1.0, 1.0]]},                  # reference point not at the centre
+    {"k": "poly", "v": [[0.0, 0.0], [4.0, 0.0], [4.0, 1.0], [1.0, 2.0]]},
+    {"k": "rect", "l": 4.0, "w": 2.0, "c": [1.5, -0.5], "o": 0.0},
+    {"k": "rect", "l": 4.0, "w": 2.0, "c": [0.0, 0.0], "o": 0.5},
+    {"k": "circ", "r": 1.5, "c": [1.0, 1.0]},
+    {"k": "group", "s": [{"k": "rect", "l": 4.0, "w": 2.0, "c": [0.0, 0.0], "o": 0.0}, {"k": "circ", "r": 1.0, "c": [0.0, 0.0]}]},
+]
+
+
+def gen_uncertain(r):
+    x = r.random()
+    if x < 0.2:
+        shape = {"k": "rect", "l": r.randint(8, 96) / 16.0, "w": r.randint(4, 48) / 16.0, "c": [0.0, 0.0], "o": 0.0}
+    elif x < 0.3:
+        shape = {"k": "circ", "r": r.randint(4, 48) / 16.0, "c": [0.0, 0.0]}
+    elif x < 0.7:
+        shape = json.loads(json.dumps(r.choice(UNCERTAIN_SHAPES)))
+    else:
+        shape = gen_obst_shape(r)                       # any obstacle shape: rotated / off-centre rectangles, random polygons, groups
+        shape["random"] = True
+    u = {"shape": shape}
+    mode = r.choice(["ori", "pos", "both"])
+    centre = [r.randint(-160, 160) / 16.0, r.randint(-160, 160) / 16.0]
+    if mode in ("ori", "both"):
+        half = r.choice([0.0, 0.05, 0.3, 0.7, 1.2, math.pi / 2, 2.0, 3.0])
+        mid = r.uniform(-3.0, 3.0)
+        u["ori"] = [mid - half, mid + half]
+    else:
+        u["ori"] = r.uniform(-3.0, 3.0)
+    if mode in ("pos", "both"):
+        k = r.choice(["rect", "circ", "poly"])
+        if k == "rect":
+            u["pos"] = {"k": "rect", "l": r.randint(4, 64) / 16.0, "w": r.randint(4, 64) / 16.0, "c": centre,
+                        "o": r.choice([0.0, 0.4, r.uniform(-3, 3)])}
+        elif k == "circ":
+            u["pos"] = {"k": "circ", "r": r.randint(4, 48) / 16.0, "c": centre}
+        else:
+            a, b = r.randint(8, 48) / 16.0, r.randint(8, 48) / 16.0
+            u["pos"] = {"k": "poly", "v": [[centre[0] - a, centre[1] - b], [centre[0] + a, centre[1] - b],
+                                           [centre[0] + a, centre[1] + b], [centre[0] - a, centre[1] + b]]}
+    else:
+        u["pos"] = centre
+    u["via"] = r.choice(["function", "function", "initial-dynamic", "initial-static", "trajectory"])
+    u["cls"] = "InitialState" if u["via"].startswith("initial") else r.choice(["KSState", "STState", "CustomState", "InitialState", "MBState"])
+    return u
+
+
+def uncertain_occupancy(case):
+    """The occupancy region the real code gives for the uncertain state, through the entry point `via`."""
     import numpy as np
+    import commonroad.scenario.state as S
     from commonroad.common.util import AngleInterval
     from commonroad.geometry.shape import occupancy_shape_from_state
-    from commonroad.scenario.state import KSState
+    from commonroad.prediction.prediction import TrajectoryPrediction
+    from commonroad.scenario.obstacle import DynamicObstacle, ObstacleType, StaticObstacle
+    from commonroad.scenario.trajectory import Trajectory
+    spec = {k: v for k, v in case["shape"].items() if k != "random"}
+    shape = geom.build_shape(spec)
+    unc_o, unc_p = isinstance(case["ori"], list), isinstance(case["pos"], dict)
+    pos = geom.build_shape(case["pos"]) if unc_p else np.array(case["pos"])
+    ori = AngleInterval(case["ori"][0], case["ori"][1]) if unc_o else case["ori"]
+    cls, via = case.get("cls", "KSState"), case.get("via", "function")
+    if cls == "CustomState":
+        st = S.CustomState(time_step=1, position=pos, orientation=ori, velocity=0.0)
+    elif cls == "InitialState":
+        st = S.InitialState(time_step=1, position=pos, orientation=ori, velocity=0.0, acceleration=0.0, yaw_rate=0.0, slip_angle=0.0)
+    else:
+        st = getattr(S, cls)(time_step=1, position=pos, orientation=ori, velocity=0.0)
+    if via == "function":
+        return occupancy_shape_from_state(shape, st)
+    if via == "initial-dynamic":
+        return DynamicObstacle(1, ObstacleType.CAR, shape, st).occupancy_at_time(1).shape
+    if via == "initial-static":
+        return StaticObstacle(1, ObstacleType.CAR, shape, st).occupancy_at_time(5).shape
+    init = S.InitialState(time_step=0, position=np.array([0.0, 0.0]), orientation=0.0, velocity=0.0, acceleration=0.0, yaw_rate=0.0, slip_angle=0.0)
+    ob = DynamicObstacle(1, ObstacleType.CAR, shape, init, TrajectoryPrediction(Trajectory(1, [st]), shape))
+    return ob.occupancy_at_time(1).shape
+
+
+def run_uncertain(ctx, case):
     r = ctx.rng
-    shape = geom.build_shape(case["shape"])
     unc_o = isinstance(case["ori"], list)
     unc_p = isinstance(case["pos"], dict)
     ctx.tag("uncertain/orientation" if unc_o else "uncertain/position")
     if unc_p:
         ctx.tag("uncertain/position")
-    st = KSState(time_step=1, position=geom.build_shape(case["pos"]) if unc_p else np.array(case["pos"]),
-                 orientation=AngleInterval(case["ori"][0], case["ori"][1]) if unc_o else case["ori"], velocity=0.0)
-    res = call(occupancy_shape_from_state, shape, st)
+    via = case.get("via", "function")
+    if via.startswith("initial"):
+        ctx.tag("uncertain/via-initial")
+    elif via == "trajectory":
+        ctx.tag("uncertain/via-trajectory")
+    if case["shape"].get("random"):
+        ctx.tag("uncertain/random-shape")
+    shape_spec = {k: v for k, v in case["shape"].items() if k != "random"}
+    with warnings.catch_warnings():
+        warnings.simplefilter("ignore")
+        res = call(uncertain_occupancy, case)
     if res[0] != "ok":
         ctx.fail(f"C04/occupancy_shape_from_state/raises-{res[1]}", f"uncertain state {case}: {res[2]}", case)
         return
     occ = res[1]
+    from commonroad.geometry.shape import Rectangle as _R
     from commonroad.geometry.shape import ShapeGroup as _SG
+    parts = occ.shapes if isinstance(occ, _SG) else [occ]
+    if not all(isinstance(x, _R) for x in parts):
+        ctx.fail("C04/occupancy_shape_from_state/not-a-rectangle", f"occupancy of an uncertain state is {type(occ).__name__}", case)
+        return
     encs = [{"k": "rect", "l": float(x.length), "w": float(x.width), "c": [float(x.center[0]), float(x.center[1])],
-             "o": float(x.orientation)} for x in (occ.shapes if isinstance(occ, _SG) else [occ])]
+             "o": float(x.orientation)} for x in parts]
     enc = encs[0] if len(encs) == 1 else {"k": "group", "s": encs}
     # sample admissible poses; every vertex / boundary sample of the placed shape must lie in the enclosure (band 1e-9)
     for _ in range(40):
@@ -587,7 +1329,7 @@ def run_uncertain(ctx, case):
         else:
             pos = case["pos"]
         pts = []
-        for item in expected_placement(case["shape"], pos, th):
+        for item in expected_placement(shape_spec, pos, th):
             if item[0] == "rect":
                 pts += [(float(x), float(y)) for x, y in geom.rect_vertices({"l": item[1], "w": item[2], "c": [item[3], item[4]], "o": item[5]})]
             elif item[0] == "circ":
@@ -609,118 +1351,441 @@ def run_uncertain(ctx, case):
 
 # ------------------------------------------------------------------------------------------------ scenario level
 
+ROLE_OF_KIND = {"static": "static", "environment": "environment", "phantom": "phantom"}
+ROLE_SETS = [["dynamic", "static"], ["dynamic"], ["static"], ["phantom"], ["environment"], ["phantom", "environment"],
+             ["static", "phantom"], ["dynamic", "environment"], ["dynamic", "static", "phantom", "environment"],
+             ["environment", "phantom", "static", "dynamic"], []]
+
+
+def role_of(o):
+    return ROLE_OF_KIND.get(o["kind"], "dynamic")
+
+
+def gen_query(r, members, neg=False):
+    g = lambda: r.randint(-320, 320) / 16.0  # noqa
+    lo, hi = sorted([g(), g()])
+    lo2, hi2 = sorted([g(), g()])
+    cands = [m["init"]["pos"] for m in members if m["kind"] not in ("phantom", "environment")]
+    if cands and r.random() < 0.35:             # an interval end exactly on an obstacle's centre: the intervals are closed
+        c = r.choice(cands)
+        if r.random() < 0.5:
+            lo = min(c[0], hi)
+            hi = max(hi, lo)
+        else:
+            hi2 = max(c[1], lo2)
+    q = {"op": "query", "t": -r.randint(1, 3) if neg else r.choice([0, 0, r.randint(0, 6), r.randint(0, 14)]),
+         "role": r.choice([None, "static", "dynamic", "phantom", "environment"]), "ty": r.choice([None, r.randrange(NTYPES)]),
+         "box": [[lo, hi], [lo2, hi2]], "roles": r.choice(ROLE_SETS),
+         "form": {"occ": r.choice(["pos", "kw", "default"]), "roles": r.choice(["tuple", "list", "set", "dup", "default"]),
+                  "t": r.choice(["pos", "kw", "default"]), "int_box": r.random() < 0.2}}
+    if q["form"]["roles"] == "default":
+        q["roles"] = ["dynamic", "static"]
+    if q["form"]["t"] == "default" and not neg:
+        q["t"] = 0
+    if q["form"]["occ"] == "default":
+        q["role"] = None
+    if q["form"]["int_box"]:
+        q["box"] = [[float(math.floor(lo)), float(math.ceil(hi))], [float(math.floor(lo2)), float(math.ceil(hi2))]]
+    return q
+
+
+def gen_scenario(r):
+    n = r.choice([0, 1, 2, 2, 3, 3, 4, 5, 6])
+    pool = r.sample(range(0, 40), n + 6)
+    if r.random() < 0.3 and n:
+        pool[r.randrange(n)] = r.choice([0, 2 ** 31, 2 ** 31 + 5])
+    pool = list(dict.fromkeys(pool))
+    lanelets = r.random() < 0.3
+    ops, members, removed = [], [], []
+    fresh = iter(pool)
+    first = [gen_obstacle(r, next(fresh)) for _ in range(n)]
+    if r.random() < 0.5:
+        ops.append({"op": "add_many", "os": first})
+    else:
+        ops += [{"op": "add", "o": o, "form": r.choice(["single", "single", "list"])} for o in first]
+    members += first
+    ops.append(gen_query(r, members))
+    for _ in range(r.randint(1, 6)):
+        x = r.random()
+        if x < 0.2:
+            o = gen_obstacle(r, next(fresh, 77))
+            if r.random() < 0.3 and members:
+                o["id"] = r.choice(members)["id"]                     # an id that is taken: ValueError, nothing changes
+            elif lanelets and r.random() < 0.2:
+                o["id"] = r.choice(LANELET_IDS)
+            ops.append({"op": "add", "o": o, "form": r.choice(["single", "list"])})
+            if o["id"] not in [m["id"] for m in members] and not (lanelets and o["id"] in LANELET_IDS):
+                members.append(o)
+        elif x < 0.3:
+            os_ = [gen_obstacle(r, next(fresh, 78 + i)) for i in range(r.randint(2, 3))]
+            if r.random() < 0.6:
+                os_[r.randrange(1, len(os_))]["id"] = r.choice([m["id"] for m in members] + [os_[0]["id"]])   # fails half-way
+            ops.append({"op": "add_many", "os": os_})
+            for o in os_:
+                if o["id"] in [m["id"] for m in members]:
+                    break
+                members.append(o)
+        elif x < 0.5 and members:
+            m = r.choice(members)
+            ops.append({"op": "remove", "ids": [m["id"]], "form": r.choice(["single", "list", "lookalike"])})
+            members.remove(m)
+            removed.append(m)
+        elif x < 0.52:
+            ops.append({"op": "remove_bad_arg", "arg": r.choice(["int", "none", "str"])})
+        elif x < 0.55:
+            ops.append({"op": "remove", "ids": [r.choice([55, 56] + [m["id"] for m in removed if m["id"] not in [q["id"] for q in members]] or [55])],
+                        "form": "absent"})
+        elif x < 0.62 and len(members) >= 2:
+            ms = r.sample(members, 2)
+            ops.append({"op": "remove", "ids": [m["id"] for m in ms], "form": "list"})
+            for m in ms:
+                members.remove(m)
+                removed.append(m)
+        elif x < 0.7 and removed:
+            m = removed.pop()
+            if m["id"] not in [q["id"] for q in members]:
+                ops.append({"op": "add", "o": m, "form": "single", "readd": True})
+                members.append(m)
+        elif x < 0.9 and members:
+            i = r.randrange(len(members))
+            hop = gen_hop(r, members[i])
+            if hop["op"] == "clone":
+                hop = {"op": "readonly"}
+            ops.append({"op": "mutate", "id": members[i]["id"], "hop": hop})
+            members[i], _ = apply_hop_spec(members[i], hop)
+        else:
+            ops.append({"op": "translate_rotate", "tr": [r.randint(-80, 80) / 16.0, r.randint(-80, 80) / 16.0],
+                        "angle": r.choice([0.0, math.pi / 2, r.uniform(-6.2, 6.2)])})
+        if r.random() < 0.7:
+            ops.append(gen_query(r, members, neg=r.random() < 0.12))
+    ops.append(gen_query(r, members))
+    return {"kind": "scenario", "lanelets": lanelets, "ops": ops}
+
+
+def scenario_ops_of_old(case):
+    """Cases stored before the histories existed: {obs, ts, role, ty, box, roles}."""
+    ops = [{"op": "add", "o": o, "form": "single"} for o in case["obs"]]
+    for t in case["ts"]:
+        ops.append({"op": "query", "t": t, "role": case["role"], "ty": case["ty"], "box": case["box"], "roles": case["roles"],
+                    "form": {"occ": "pos", "roles": "tuple", "t": "pos"}})
+    return ops
+
+
+def offered_centre(o, ob, occ):
+    """What obstacles_by_position_intervals tests: initial position (static), centre of the shape (environment) / of the occupancy
+    at t (dynamic, phantom); None when the shape has no `center` (ShapeGroup)."""
+    if o["kind"] == "static":
+        return ob.initial_state.position
+    if o["kind"] == "environment":
+        return getattr(ob.obstacle_shape, "center", None)
+    return getattr(occ.shape, "center", None) if occ is not None else None
+
+
 def run_scenario(ctx, case):
-    import numpy as np  # noqa
+    import numpy as np
     from commonroad.common.util import Interval
+    from commonroad.scenario.lanelet import Lanelet
     from commonroad.scenario.obstacle import ObstacleRole, ObstacleType
     from commonroad.scenario.scenario import Scenario
+    ops = case["ops"] if "ops" in case else scenario_ops_of_old(case)
     sc = Scenario(0.1)
-    objs = {}
-    for o in case["obs"]:
-        objs[o["id"]] = build_obstacle(o)
-        sc.add_objects(objs[o["id"]])
+    used = []
+    if case.get("lanelets"):
+        ctx.tag("sop/lanelets")
+        for j, lid in enumerate(LANELET_IDS):
+            y = 4.0 * j
+            sc.add_objects(Lanelet(np.array([[0.0, y + 1], [10.0, y + 1]]), np.array([[0.0, y], [10.0, y]]), np.array([[0.0, y - 1], [10.0, y - 1]]), lid))
+        used = list(LANELET_IDS)
     role_map = {"static": ObstacleRole.STATIC, "dynamic": ObstacleRole.DYNAMIC, "phantom": ObstacleRole.Phantom,
                 "environment": ObstacleRole.ENVIRONMENT}
-    role = role_map[case["role"]] if case["role"] else None
-    ty = list(ObstacleType)[case["ty"]] if case["ty"] is not None else None
+    members = []          # own bookkeeping: [spec, object] of every obstacle added and not removed, in insertion order
+    ever_removed = set()
+    mops, expect = [], []  # the model's op list; per op what the implementation did (compared at the end)
+
+    def in_use(i):
+        return i in used or any(m[0]["id"] == i for m in members)
+
+    for n_op, op in enumerate(ops):
+        sub = dict(case, ops=ops[:n_op + 1])
+        name = op["op"]
+        with warnings.catch_warnings():
+            warnings.simplefilter("ignore")
+            if name == "add":
+                o = op["o"]
+                tag_dims(ctx, o)
+                ob = build_obstacle(o)
+                r = call(sc.add_objects, [ob] if op["form"] == "list" else ob)
+                if op["form"] == "list":
+                    ctx.tag("sop/add-list")
+                if op.get("readd"):
+                    ctx.tag("sop/readd")
+                free = not in_use(o["id"])
+                if not free:
+                    ctx.tag("sop/add-duplicate-id")
+                if (r[0] == "ok") != free or (r[0] == "err" and r[1] != "value"):
+                    ctx.fail("C04/Scenario.add_objects/" + ("rejects-free-id" if free else "accepts-taken-id"),
+                             f"id {o['id']}: {r[0] if r[0] == 'ok' else r[2]}", sub)
+                    return
+                if free:
+                    members.append([o, ob])
+                mops.append({"op": "add", "id": o["id"], "obst": model_obst(o)})
+                expect.append({"ok": None} if r[0] == "ok" else {"err": r[1]})
+            elif name == "add_many":
+                obs = [build_obstacle(o) for o in op["os"]]
+                for o in op["os"]:
+                    tag_dims(ctx, o)
+                r = call(sc.add_objects, obs)
+                ctx.tag("sop/add-list")
+                ok = True
+                for o, ob in zip(op["os"], obs):
+                    if in_use(o["id"]):
+                        ok = False
+                        ctx.tag("sop/add_many-fails-halfway")
+                        break
+                    members.append([o, ob])
+                if (r[0] == "ok") != ok or (r[0] == "err" and r[1] != "value"):
+                    ctx.fail("C04/Scenario.add_objects/list-form-" + ("rejects-free-ids" if ok else "accepts-taken-id"),
+                             f"{[o['id'] for o in op['os']]}: {r[0] if r[0] == 'ok' else r[2]}", sub)
+                    return
+                mops.append({"op": "add_many", "items": [{"id": o["id"], "obst": model_obst(o)} for o in op["os"]]})
+                expect.append({"ok": None} if r[0] == "ok" else {"err": r[1]})
+            elif name == "remove":
+                targets = []
+                for i in op["ids"]:
+                    hit = [m for m in members if m[0]["id"] == i]
+                    if op["form"] == "lookalike" and hit:
+                        ctx.tag("sop/remove-lookalike")
+                        targets.append(build_obstacle(gen_obstacle(random.Random(i), i, kind=hit[0][0]["kind"])))
+                    elif hit:
+                        targets.append(hit[0][1])
+                    else:
+                        ctx.tag("sop/remove-absent")
+                        targets.append(build_obstacle({"id": i, "kind": "environment", "type": 0, "shape": {"k": "circ", "r": 1.0, "c": [0.0, 0.0]},
+                                                       "t_init": 0, "init": {"pos": [0.0, 0.0], "ori": 0.0}}))
+                    if hit:
+                        members.remove(hit[0])
+                        ever_removed.add(i)
+                    mops.append({"op": "remove", "id": i})
+                    expect.append({"ok": None})
+                ctx.tag("sop/remove")
+                r = call(sc.remove_obstacle, targets if op["form"] == "list" or len(targets) > 1 else targets[0])
+                if r[0] != "ok":
+                    ctx.fail(f"C04/Scenario.remove_obstacle/raises-{r[1]}", f"ids {op['ids']} ({op['form']}): {r[2]}", sub)
+                    return
+            elif name == "remove_bad_arg":
+                ctx.tag("sop/remove-bad-arg")
+                r = call(sc.remove_obstacle, {"int": 5, "none": None, "str": "all"}[op["arg"]])
+                if not (r[0] == "err" and r[1] == "assert"):
+                    ctx.fail("C04/Scenario.remove_obstacle/accepts-a-non-obstacle", f"{op['arg']}: {r[0] if r[0] == 'ok' else r[2]}", sub)
+                    return
+            elif name == "mutate":
+                hit = [m for m in members if m[0]["id"] == op["id"]]
+                if not hit:
+                    continue
+                m = hit[0]
+                ctx.tag("sop/mutate", hop_tag(op["hop"]))
+                m[1].occupancy_at_time(m[0].get("t_init", 0) + 1)                 # a first query fills the caches
+                _, r = apply_hop_obj(m[1], m[0], op["hop"])
+                if op["hop"]["op"] == "update_initial_fail":
+                    if not (r[0] == "err" and r[1] == "assert"):
+                        ctx.fail(f"C04/{m[0]['kind']}.update_initial_state/accepts-{op['hop']['why']}", str(r[-1]), sub)
+                        return
+                elif r[0] != "ok":
+                    ctx.fail(f"C04/{m[0]['kind']}.{op['hop']['op']}/raises-{r[1]}", f"{op['hop']}: {r[2]}", sub)
+                    return
+                m[0], mut = apply_hop_spec(m[0], op["hop"])
+                if op["hop"]["op"] == "translate_rotate":
+                    m[0] = readback(m[1], m[0])
+                judge(ctx, m[1], m[0], probe_ts(m[0])[:4], lambda t: sub, after=op["hop"]["op"], place_corr=False)
+                mops.append({"op": "mutate", "id": op["id"], "mut": mut})
+                expect.append({"ok": None})
+            elif name == "translate_rotate":
+                ctx.tag("sop/translate_rotate")
+                for m in members:
+                    m[1].occupancy_at_time(m[0].get("t_init", 0) + 1)
+                r = call(sc.translate_rotate, np.array(op["tr"]), op["angle"])
+                if r[0] != "ok":
+                    ctx.fail(f"C04/Scenario.translate_rotate/raises-{r[1]}", r[2], sub)
+                    return
+                for m in members:
+                    m[0] = readback(m[1], m[0])
+                    judge(ctx, m[1], m[0], probe_ts(m[0])[:3], lambda t: sub, after="Scenario.translate_rotate", place_corr=False)
+            elif name == "query":
+                q = scenario_query(ctx, sc, members, op, sub, role_map, Interval, ObstacleType, ever_removed)
+                if q is None:
+                    return
+                mops.append(q[0])
+                expect.append(q[1])
+    res = ctx.driver.ask("C04", "scn", {"used": used, "ops": mops})
+    for mo, e, m in zip(mops, expect, res):
+        ctx.compare(dict(case, model_op=mo), e, model_query_view(m), f"Scenario history step {mo['op']} vs CR.Occ.Scn")
+
+
+def scenario_query(ctx, sc, members, op, sub, role_map, Interval, ObstacleType, ever_removed):
+    """All scenario-level queries at one step, judged against the per-obstacle answers of the obstacles the harness's own
+    bookkeeping holds. Returns (model op, implementation answers in the model's vocabulary)."""
+    t, form = op["t"], op.get("form", {})
+    role = role_map[op["role"]] if op["role"] else None
+    ty = list(ObstacleType)[op["ty"]] if op["ty"] is not None else None
+    (x0, x1), (y0, y1) = op["box"]
+    if form.get("int_box"):
+        ivs = [Interval(int(x0), int(x1)), Interval(int(y0), int(y1))]
+    else:
+        ivs = [Interval(x0, x1), Interval(y0, y1)]
+    roles = [role_map[x] for x in op["roles"]]
+    rform = form.get("roles", "tuple")
+    roles_arg = tuple(roles) if rform == "tuple" else list(roles) if rform == "list" else set(roles) if rform == "set" else tuple(roles + roles)
     if role is not None:
         ctx.tag("scenario/role-filter")
-    mobs = [{"id": o["id"], "obst": model_obst(o), "ty": None if o["kind"] == "phantom" else o["type"]} for o in case["obs"]]
-    for t in case["ts"]:
-        sub = dict(case, ts=[t])
-        with warnings.catch_warnings():
-            warnings.simplefilter("ignore")
-            r1 = call(sc.occupancies_at_time_step, t, role)
-            r2 = call(sc.obstacle_states_at_time_step, t)
-            r3 = call(sc.obstacles_by_role_and_type, role, ty)
-            r4 = call(sc.obstacles_by_position_intervals, [Interval(*case["box"][0]), Interval(*case["box"][1])],
-                      tuple(role_map[x] for x in case["roles"]), t)
-        for name, r in (("occupancies_at_time_step", r1), ("obstacle_states_at_time_step", r2), ("obstacles_by_role_and_type", r3),
-                        ("obstacles_by_position_intervals", r4)):
-            if r[0] != "ok":
-                ctx.fail(f"C04/Scenario.{name}/raises-{r[1]}", f"t={t}: {r[2]}", sub)
-        if any(r[0] != "ok" for r in (r1, r2, r3, r4)):
-            continue
-        # per-obstacle answers
-        per_occ, per_st = {}, {}
-        with warnings.catch_warnings():
-            warnings.simplefilter("ignore")
-            for o in case["obs"]:
-                ob = objs[o["id"]]
-                per_occ[o["id"]] = ob.occupancy_at_time(t)
-                if o["kind"].startswith("dynamic") or o["kind"] == "static":
-                    per_st[o["id"]] = ob.state_at_time(t)
-        # occupancies: exactly the per-obstacle occupancies of the obstacles passing the role filter
-        want = [(o["id"], per_occ[o["id"]]) for o in case["obs"]
-                if (role is None or objs[o["id"]].obstacle_role == role) and per_occ[o["id"]] is not None]
-        got = r1[1]
+    if rform in ("list", "dup"):
+        ctx.tag("sop/roles-list")
+    if rform == "set":
+        ctx.tag("sop/roles-set")
+    if "default" in (form.get("occ"), rform, form.get("t")):
+        ctx.tag("sop/query-default-args")
+    if t < 0:
+        ctx.tag("sop/query-negative-step")
+    r1 = call(sc.occupancies_at_time_step, t) if form.get("occ") == "default" and role is None else \
+        call(sc.occupancies_at_time_step, time_step=t, obstacle_role=role) if form.get("occ") == "kw" else call(sc.occupancies_at_time_step, t, role)
+    r2 = call(sc.obstacle_states_at_time_step, t)
+    r3 = call(sc.obstacles_by_role_and_type, obstacle_role=role, obstacle_type=ty) if form.get("occ") == "kw" else \
+        call(sc.obstacles_by_role_and_type, role, ty)
+    if not members:
+        ctx.tag("sop/empty-scenario")
+    if rform == "default" and form.get("t") == "default" and t == 0:
+        r4 = call(sc.obstacles_by_position_intervals, ivs) if len(members) % 2 else \
+            call(sc.obstacles_by_position_intervals, ivs, time_step=None)
+    elif rform == "default":
+        r4 = call(sc.obstacles_by_position_intervals, ivs, time_step=t)
+    elif form.get("t") == "default" and t == 0:
+        r4 = call(sc.obstacles_by_position_intervals, ivs, roles_arg)
+    elif form.get("t") == "kw":
+        r4 = call(sc.obstacles_by_position_intervals, position_intervals=ivs, obstacle_role=roles_arg, time_step=t)
+    else:
+        r4 = call(sc.obstacles_by_position_intervals, ivs, roles_arg, t)
+    neg = t < 0
+    for name, r, may_assert in (("occupancies_at_time_step", r1, neg), ("obstacle_states_at_time_step", r2, neg),
+                                ("obstacles_by_role_and_type", r3, False), ("obstacles_by_position_intervals", r4, False)):
+        if r[0] != "ok" and not (may_assert and r[1] == "assert"):
+            ctx.fail(f"C04/Scenario.{name}/raises-{r[1]}", f"t={t}: {r[2]}", sub)
+            return None
+    # per-obstacle answers, in the order of Scenario.obstacles: static, dynamic, phantom, environment
+    order = [m for rk in ("static", "dynamic", "phantom", "environment") for m in members if role_of(m[0]) == rk]
+    per_occ, per_st = {}, {}
+    for o, ob in order:
+        per_occ[o["id"]] = ob.occupancy_at_time(t)
+        if role_of(o) in ("static", "dynamic"):
+            per_st[o["id"]] = ob.state_at_time(t)
 
-        def occ_key(oc):
-            return (str(oc.time_step), json.dumps(shape_points(oc.shape)))
-        if sorted(occ_key(x) for x in got) != sorted(occ_key(oc) for _, oc in want):
+    def occ_key(oc):
+        return (str(oc.time_step), json.dumps(shape_points(oc.shape)))
+    if r1[0] == "ok":
+        want = [per_occ[o["id"]] for o, ob in order if (role is None or ob.obstacle_role == role) and per_occ[o["id"]] is not None]
+        if sorted(occ_key(x) for x in r1[1]) != sorted(occ_key(oc) for oc in want):
             ctx.fail("C04/Scenario.occupancies_at_time_step/not-the-per-obstacle-answers",
-                     f"t={t} role={case['role']}: {len(got)} occupancies returned, per-obstacle answers give {len(want)}", sub)
+                     f"t={t} role={op['role']}: {len(r1[1])} occupancies returned, per-obstacle answers give {len(want)}", sub)
+    if r2[0] == "ok":
         want_st = {i: s for i, s in per_st.items() if s is not None}
         if set(r2[1].keys()) != set(want_st.keys()) or any(r2[1][i] is not want_st[i] for i in want_st):
             ctx.fail("C04/Scenario.obstacle_states_at_time_step/not-the-per-obstacle-answers",
                      f"t={t}: ids {sorted(r2[1].keys())} vs per-obstacle {sorted(want_st.keys())}", sub)
-        want_f = sorted(o["id"] for o in case["obs"] if (role is None or objs[o["id"]].obstacle_role == role)
-                        and (ty is None or getattr(objs[o["id"]], "obstacle_type", None) == ty))
-        if sorted(x.obstacle_id for x in r3[1]) != want_f:
-            ctx.fail("C04/Scenario.obstacles_by_role_and_type/wrong-filter", f"{sorted(x.obstacle_id for x in r3[1])} vs {want_f}", sub)
-        # position interval: centre of the occupancy at t (dynamic/phantom), initial position (static), shape centre (environment)
-        ctx.tag("scenario/position-interval")
-        (x0, x1), (y0, y1) = case["box"]
-        want_p = []
-        for o in case["obs"]:
-            ob = objs[o["id"]]
-            rk = {"static": "static", "environment": "environment", "phantom": "phantom"}.get(o["kind"], "dynamic")
-            if rk not in case["roles"]:
-                continue
-            if rk == "static":
-                c = o["init"]["pos"]
-            elif rk == "environment":
-                c = getattr(ob.obstacle_shape, "center", None)
-            else:
-                oc = per_occ[o["id"]]
-                if oc is None:
-                    continue
-                c = getattr(oc.shape, "center", None)
-            if c is None or (x0 <= c[0] <= x1 and y0 <= c[1] <= y1):
-                want_p.append(o["id"])
-        if sorted(x.obstacle_id for x in r4[1]) != sorted(want_p):
-            ctx.fail("C04/Scenario.obstacles_by_position_intervals/wrong-filter",
-                     f"t={t}: {sorted(x.obstacle_id for x in r4[1])} vs per-obstacle {sorted(want_p)}", sub)
-        # correspondence with the model (ids + symbolic answers)
-        m = ctx.driver.ask("C04", "scenario", {"obs": mobs, "t": t, "role": case["role"], "ty": case["ty"]})
-        impl = {"occs": len(got), "states": sorted(r2[1].keys()), "by_role_type": sorted(x.obstacle_id for x in r3[1])}
-        mod = {"occs": len(m["occs"]), "states": sorted(i for i, _ in m["states"]), "by_role_type": sorted(m["by_role_type"])}
-        ctx.compare(sub, impl, mod, "Scenario queries vs CR.Occ.occupanciesAt/statesAt/byRoleType")
-        # position filter: the model decides which obstacles have an occupancy and applies the closed-interval test to the
-        # centre the real answer offers (a parameter of the model); the ORDER of the list is compared too
-        pobs = []
-        for o in case["obs"]:
-            ob = objs[o["id"]]
-            if o["kind"] == "static":
-                c = o["init"]["pos"]
-            elif o["kind"] == "environment":
-                c = getattr(ob.obstacle_shape, "center", None)
-            else:
-                c = getattr(per_occ[o["id"]].shape, "center", None) if per_occ[o["id"]] is not None else None
-            pobs.append({"id": o["id"], "obst": model_obst(o), "c": None if c is None else [rat(float(c[0])), rat(float(c[1]))]})
-        mp = ctx.driver.ask("C04", "by_position", {"obs": pobs, "t": t, "roles": list(case["roles"]),
-                                                   "ix": [rat(x0), rat(x1)], "iy": [rat(y0), rat(y1)]})
-        ctx.compare(sub, [x.obstacle_id for x in r4[1]], mp, "Scenario.obstacles_by_position_intervals vs CR.Occ.byPosition")
+    want_f = sorted(o["id"] for o, ob in order if (role is None or ob.obstacle_role == role)
+                    and (ty is None or getattr(ob, "obstacle_type", None) == ty))
+    if sorted(x.obstacle_id for x in r3[1]) != want_f or any(not any(x is ob for _, ob in order) for x in r3[1]):
+        ctx.fail("C04/Scenario.obstacles_by_role_and_type/wrong-filter", f"{sorted(x.obstacle_id for x in r3[1])} vs {want_f}", sub)
+    # position interval: centre of the occupancy at t (dynamic/phantom), initial position (static), shape centre (environment)
+    ctx.tag("scenario/position-interval")
+    ix0, ix1, iy0, iy1 = ivs[0].start, ivs[0].end, ivs[1].start, ivs[1].end
+    want_p, ctrs = [], []
+    for o, ob in order:
+        c = offered_centre(o, ob, per_occ[o["id"]])
+        ctrs.append([o["id"], None if c is None else [rat(float(c[0])), rat(float(c[1]))]])
+        if role_of(o) not in op["roles"]:
+            continue
+        if role_of(o) in ("dynamic", "phantom") and per_occ[o["id"]] is None:
+            continue
+        if c is None or (ix0 <= c[0] <= ix1 and iy0 <= c[1] <= iy1):
+            want_p.append(o["id"])
+    if sorted(x.obstacle_id for x in r4[1]) != sorted(want_p) or any(not any(x is ob for _, ob in order) for x in r4[1]):
+        ctx.fail("C04/Scenario.obstacles_by_position_intervals/wrong-filter",
+                 f"t={t}: {sorted(x.obstacle_id for x in r4[1])} vs per-obstacle {sorted(want_p)}", sub)
+    # the population itself, through every accessor
+    ids = [o["id"] for o, _ in order]
+    got_ids = [x.obstacle_id for x in sc.obstacles]
+    parts = {"static": sc.static_obstacles, "dynamic": sc.dynamic_obstacles, "phantom": sc.phantom_obstacle, "environment": sc.environment_obstacle}
+    if sorted(got_ids) != sorted(ids) or any(sorted(x.obstacle_id for x in parts[rk]) != sorted(o["id"] for o, _ in order if role_of(o) == rk)
+                                             for rk in parts):
+        ctx.fail("C04/Scenario.obstacles/not-the-added-minus-removed-obstacles", f"{got_ids} vs {ids}", sub)
+    ctx.tag("sop/obstacle_by_id")
+    for i in ids + sorted(ever_removed - set(ids))[:2]:
+        got = sc.obstacle_by_id(i)
+        want_ob = next((ob for o, ob in order if o["id"] == i), None)
+        if got is not want_ob:
+            ctx.fail("C04/Scenario.obstacle_by_id/wrong-object", f"id {i}: {'None' if got is None else 'an obstacle'} returned, "
+                     f"{'None' if want_ob is None else 'the added obstacle'} expected", sub)
+    sc.generate_object_id()
+    # object reuse: the same obstacle objects put into a SECOND scenario answer there as they do here
+    if (t + len(order)) % 3 == 0 and t >= 0:
+        ctx.tag("sop/second-scenario")
+        sc2 = type(sc)(0.2)
+        r5 = call(sc2.add_objects, [ob for _, ob in order])
+        r6, r7 = call(sc2.occupancies_at_time_step, t), call(sc2.obstacle_states_at_time_step, t)
+        if r5[0] != "ok" or r6[0] != "ok" or r7[0] != "ok" or \
+                sorted(occ_key(x) for x in r6[1]) != sorted(occ_key(oc) for oc in per_occ.values() if oc is not None) or \
+                (r2[0] == "ok" and set(r7[1]) != set(r2[1])) or [x.obstacle_id for x in sc2.obstacles] != got_ids:
+            ctx.fail("C04/Scenario/second-scenario-with-the-same-obstacles-answers-differently", f"t={t}", sub)
+    impl = {"order": got_ids,
+            "occs": {"err": r1[1]} if r1[0] != "ok" else {"ok": len(r1[1])},
+            "states": {"err": r2[1]} if r2[0] != "ok" else {"ok": sorted(r2[1].keys())},
+            "by_role_type": [x.obstacle_id for x in r3[1]], "by_position": [x.obstacle_id for x in r4[1]]}
+    mop = {"op": "query", "t": t, "role": op["role"], "ty": op["ty"],
+           "types": [[o["id"], None if o["kind"] == "phantom" else o["type"]] for o, _ in order], "ctrs": ctrs,
+           "roles": list(op["roles"]), "ix": [rat(ix0), rat(ix1)], "iy": [rat(iy0), rat(iy1)]}
+    return mop, impl
+
+
+def model_query_view(m):
+    """The model's answer to a query step in the shape `scenario_query` reports the implementation's."""
+    if not isinstance(m, dict) or "order" not in m:
+        return m
+    return {"order": m["order"], "occs": m["occs"] if "err" in m["occs"] else {"ok": len(m["occs"]["ok"])},
+            "states": m["states"] if "err" in m["states"] else {"ok": sorted(i for i, _ in m["states"]["ok"])},
+            "by_role_type": m["by_role_type"], "by_position": m["by_position"]}
+
+
+def gen_case(ctx):
+    r = ctx.rng
+    x = r.random()
+    if x < 0.38:
+        o = gen_obstacle(r, r.choice([1, 1, 2, 3, 0, 2 ** 31, r.randint(1, 50)]))
+        return {"kind": "obstacle", "obst": o, "ts": horizon_ts(o)}
+    if x < 0.60:
+        o = gen_obstacle(r, r.choice([1, 2, 3, 0, r.randint(1, 50)]))
+        return {"kind": "history", "obst": o, "ops": gen_history(r, o)}
+    if x < 0.76:
+        return {"kind": "uncertain", **gen_uncertain(r)}
+    return gen_scenario(r)
 
 
 def run_case(ctx, case):
     ctx.case(case)
-    if case["kind"] == "obstacle":
-        run_obstacle(ctx, case)
-    elif case["kind"] == "uncertain":
-        run_uncertain(ctx, case)
-    else:
-        run_scenario(ctx, case)
+    try:
+        if case["kind"] == "obstacle":
+            run_obstacle(ctx, case)
+        elif case["kind"] == "history":
+            run_history(ctx, case)
+        elif case["kind"] == "uncertain":
+            run_uncertain(ctx, case)
+        else:
+            run_scenario(ctx, case)
+    except InfraError:
+        raise
+    except Exception as e:  # noqa
+        # the objects no longer behave the way the generated history says (an attribute missing, a list shorter than the spec ...):
+        # a failure of the code under test to follow its public interface, reported with the case; never seen on the unchanged tree
+        import traceback
+        ctx.fail(f"C04/{case['kind']}/objects-do-not-follow-the-history/{type(e).__name__}",
+                 f"{type(e).__name__}: {e} at {traceback.format_exc().strip().splitlines()[-3].strip()}", case)
 
 
 def witness_gapped(ctx):
@@ -744,8 +1809,34 @@ def witness_gapped(ctx):
     ctx.tag("witness/gapped-trajectory:" + ("as-model" if as_model else "differs-from-model"))
 
 
+def witness_numpy_state_steps(ctx):
+    """States whose time_step is a numpy integer (outside the annotated type): accepted by Trajectory, rejected by Occupancy at the
+    first occupancy query. Recorded as excluded, never judged (ASSUMPTIONS)."""
+    import numpy as np
+    from commonroad.geometry.shape import Rectangle
+    from commonroad.prediction.prediction import TrajectoryPrediction
+    from commonroad.scenario.obstacle import DynamicObstacle, ObstacleType
+    from commonroad.scenario.state import InitialState, KSState
+    from commonroad.scenario.trajectory import Trajectory
+    try:
+        tr = Trajectory(1, [KSState(time_step=np.int64(t), position=np.array([float(t), 0.0]), orientation=0.0, velocity=1.0) for t in (1, 2)])
+        ob = DynamicObstacle(1, ObstacleType.CAR, Rectangle(4, 2), InitialState(time_step=0, position=np.array([0.0, 0.0]), orientation=0.0,
+                             velocity=0.0, acceleration=0.0, yaw_rate=0.0, slip_angle=0.0), TrajectoryPrediction(tr, Rectangle(4, 2)))
+        r = call(ob.occupancy_at_time, 2)
+        how = "rejected-AssertionError" if r[0] == "err" and r[1] == "assert" else "answered" if r[0] == "ok" else "raises-" + r[1]
+    except Exception:  # noqa
+        how = "rejected-at-construction"
+    ctx.excluded += 1
+    ctx.tag("witness/numpy-state-time-steps:" + how)
+
+
 def run(ctx):
+    from commonroad.scenario.obstacle import ObstacleType
+    global NTYPES
+    NTYPES = len(ObstacleType)
+    c04_dims.check(ctx)            # exit 2 when the code has a parameter / setter / operation the dimension table does not know
     witness_gapped(ctx)
+    witness_numpy_state_steps(ctx)
     for p in sorted(glob.glob(os.path.join(CORPUS_DIR, "C04", "*.json"))):
         run_case(ctx, json.load(open(p)))
     for _ in range(ctx.n(900)):
